@@ -12,1705 +12,3329 @@ Definition show_fres (r : fres) : string :=
   end.
 Definition check (rs : list rune) : string := digest (show_fres (format_res rs)).
 Definition full (rs : list rune) : string := show_fres (format_res rs).
-Eval vm_compute in ("<<<M1712>>>" ++ check (runes_of_ascii "
+Eval vm_compute in ("<<<M3670>>>" ++ check (runes_of_ascii "// top
+  options 	 // c0
 
-  // top
-  options  // c0a
-    // c0b
-	  {	// c1
+{ 	 // c1
+    StringPrefixLenType 	 // c2a
+	// c2b
+	=  u8  // c4
+      ; // c5a
+	// c5b
+	ArrayPrefixLenType=  // c7a
+// c7b
+    u64 // c8a
 
-ArrayPrefixLenType	// c2a
-// c2b
-= 
-u16 // c4a
-    // c4b
-;// c5a
-  // c5b
+// c8b
+
+; 
+    // c9
 	FixedStringPadFromLeft 
-  // c6
-  =
-	true 
-;  // c9
-      JavaPackage  // c10a
-  // c10b
-	= ""com.example.msg"" 	 // c12
+	// c10
+	=	// c11a
+	  // c11b
 
-;	// c13
-      GoPackage 
-// c14
-	=  ""msg""
-    // c16
-  ;GoModule 
-// c18
-  	=
+  true  // c12
+; 	 // c13a
+    	// c13b
 
-    ""example.com/msg"";
-    }
-    MetaData
-Meta  // c24
-		{  
-  // c25
+JavaPackage	// c14a
+	// c14b
+=""com.example.msg""
+// c16
+      ;GoPackage 
 
-u32 SeqNum`sequence number` ,
-	// c29
+    // c18
+= 
+      // c19
+	""msg"" 
+;  // c21a
+  // c21b
+    GoModule
+    // c22
+		=
+// c23
+    ""example.com/msg"" 	 // c24a
+  // c24b
+  ;
+    } 
+// c26
+  MetaData Meta
+    { 	 // c29
+u32  SeqNum`sequence number`
+    // c32
 
-	char[ 8 // c31
-  ]
-	    // c32
-	Symbol  // c33a
+  , char[
+// c34
+	8 	 // c35
+	  ]	Symbol // c37
+	  `symbol` 	 // c38a
+    // c38b
+  	, 	 // c39
+    zchar[ // c40
+    5 ] ZSym  // c43a
+  // c43b
+`z symbol` // c44a
 
-// c33b
-      `symbol` 
+  // c44b
+	, // c45
+  string // c46a
 
-    // c34
-		,
-    // c35
-		zchar[// c36a
-// c36b
-5	// c37a
-// c37b
-      ]
-	ZSym  // c39
-    	`z symbol`
-    // c40
-,// c41a
+  // c46b
+    Note
+	,	// c48a
+	// c48b
+	Symbol	// c49a
+    // c49b
+AltSymbol 
 
-// c41b
-  string
+// c50
+    `alias of symbol` ,
 
-    // c42
-	Note
+f64 // c53
+Price// c54a
+      // c54b
+  , 
+}	// c56
+  packet  // c57
+Inner  
+      // c58
+{ 
+u8 
+      // c60
+  a
+	,
+        // c62
+	i16
+b
+,
 
-, // c44
-Symbol
-    // c45
-    	AltSymbol 	 // c46a
-	  // c46b
-`alias of symbol`
-        // c47
-	  , 
-  // c48
-
-	f64 	 // c49
-  Price 	 // c50a
-// c50b
-
-  ,
-
-// c51
-
-  } // c52a
-	// c52b
-
-	packet	// c53a
-      // c53b
-	Inner// c54
-	{  
-      // c55
-    u8
-    // c56
-a 	 // c57a
-    // c57b
-,// c58a
-	// c58b
-i16
-// c59
-    	b  // c60
-,// c61a
-// c61b
-    string 	 // c62
-    c 
-,  // c64a
-
-// c64b
-    	}
-
-    // c65
-
-	packet
-Inner2 	 // c67a
-  	// c67b
-  { 	 // c68a
-    	// c68b
-u8
-
-a2 
-// c70
-      ,  // c71a
-	// c71b
-	char[
-	3 ] // c74
-      c2 , 
-  // c76
+    string
+c
+,// c68
   }
 
-    packet 
-Logon 	 // c79
-	{ 
-	    // c80
-u8 	 // c81
-    x
-	// c82
+    // c69
 
-  ,
-    // c83
+  packet	Inner2
+	{ u8
+	    // c73
+a2 
+,  // c75
 
-	string  
+	char[
+
+// c76
+
+3	// c77a
+	// c77b
+  ] 
+        // c78
+c2 
+
+// c79
+
+  , // c80a
+	// c80b
+		}	// c81a
+    // c81b
+
+packet
+Logon	// c83
+  {  
   // c84
-	user ,
 
-repeat u16// c88a
-// c88b
-codes 
-,	// c90
-    } 
-    // c91
+	u8	// c85a
+		// c85b
+x 
+	    // c86
+	,  string 	 // c88
+    	user  
+      // c89
+  ,	// c90a
+// c90b
+repeat 
+	    // c91
+		u16 
+// c92
+  	codes  // c93
 
-  packet// c92
-	Logout  // c93a
-// c93b
-  { 	 // c94
+,	// c94a
+	// c94b
+}  
+  // c95
+packet // c96a
 
-u16// c95a
-    // c95b
+	// c96b
+	Logout  // c97a
+
+	// c97b
+
+	{ // c98
+
+u16 
+	    // c99
 
 	reason 
+	    // c100
+    , // c101a
+	  // c101b
+		} // c102a
+    // c102b
+	packet
+    // c103
 
-// c96
-	,	// c97
-    } // c98
-  packet
-
-// c99
-  	Empty
-
-{ 	 // c101a
-
-// c101b
-    }
-        // c102
-
-root// c103a
-// c103b
-
-  packet // c104a
-  // c104b
+Empty 	 // c104
+	  {  // c105a
+// c105b
+    	}// c106
+	  root packet	// c108a
+    	// c108b
 	Msg
+	// c109
+{ u8 	 // c111a
+    // c111b
+	  su8// c112a
 
-    // c105
-{ // c106a
-    	// c106b
-	u8
-        // c107
-    su8 // c108
+  // c112b
 
-,
+	,
 	uint8
-        // c110
-    luint8
+    // c114
+    luint8 	 // c115a
+	// c115b
+    	,u16
+	su16  // c118
+		,
+uint16 
+    // c120
 
-// c111
-  	,// c112
-      u16 
-    // c113
-	  su16// c114
-	, // c115a
-	  // c115b
-    uint16  // c116
+  luint16,  u32	// c123
 
-  luint16
+su32 
 
-,  // c118
-	u32  // c119a
-    // c119b
-  	su32
+    // c124
+, 	 // c125
+uint32
+// c126
+	luint32 
+        // c127
+		, 
 
-// c120
-    	,// c121
-    uint32
-	    // c122
-luint32 	 // c123a
+    // c128
+  u64
 
-// c123b
-    ,	// c124
-    	u64
-    su64 // c126a
-	// c126b
-, uint64 luint64 ,
-
-// c130
-      i8
-
-    // c131
-si8// c132
-	  ,// c133
-
-  int8
-
-// c134
-	lint8 // c135a
-
-// c135b
-    	, 	 // c136a
-		// c136b
-    i16 
-    // c137
-
-si16// c138
-	,	// c139a
-
-// c139b
-
-int16  // c140a
-	  // c140b
-	  lint16 
-// c141
-,	// c142a
-  // c142b
-	  i32  // c143a
-    // c143b
-    si32 	 // c144a
-// c144b
+su64
 	,
-	// c145
+uint64 // c132a
+    // c132b
+    luint64
+    , // c134
 
-int32 
-    // c146
-  lint32 , 
-// c148
-    i64 	 // c149a
-  // c149b
-si64 // c150a
-	// c150b
+	i8
+    // c135
+    si8 // c136
+		, // c137a
+	  // c137b
 
-, // c151a
-  // c151b
-int64
-    lint64  // c153
-  ,
-// c154
-    	f32 
-// c155
-sf32  // c156a
-    // c156b
-	, 	 // c157a
-
-// c157b
-    float32 
-lfloat32 	 // c159a
-	// c159b
-, 
-      // c160
-    	f64 
-
-// c161
-sf64
-// c162
-	,
-    // c163
-	float64 lfloat64 
-    // c165
-,  // c166
-	char[ 
-// c167
-	  6	// c168a
-  	// c168b
-	]
-// c169
-  fsplain 
-    // c170
-  ,  // c171
-	@leftPad 	 // c172
-
-( '0' // c174a
-// c174b
-    	) char[ 
-4 
-]fs0	// c179
-,// c180a
-  // c180b
-
-@rightPad  
-      // c181
-    ( '0' // c183a
-
-// c183b
-) // c184a
-  // c184b
-char[	5 // c186
-		] 	 // c187a
-  // c187b
-	  fs1,// c189a
-		// c189b
-  	@leftPad 
-    // c190
-    (	// c191
-    	' ' 
-// c192
-    )  // c193
-    char[	// c194
-	6 	 // c195
-  ] 	 // c196a
-
-// c196b
-  fs2// c197
-      , 
-    // c198
-
-	@rightPad 	 // c199
-		(
-    // c200
-' ' 
-
-// c201
-      ) // c202
-	char[ 
-  // c203
-	7	// c204a
-  // c204b
-]fs3 	 // c206
-,  // c207
-  @leftPad  // c208a
-	// c208b
-    (
-	'\x00'  // c210a
-      // c210b
-  )
-
-    char[ 
-8 
-// c213
-  ] // c214
-  fs4
-
-, @rightPad
-(
-// c218
-  '\x00'// c219
-	) 
-  // c220
-	char[// c221
-9	// c222a
-  	// c222b
-	  ] 
-	// c223
-		fs5  // c224a
-  // c224b
-    	,  // c225
-  @leftPad // c226a
-	// c226b
-(
-        // c227
-	)	// c228
-	char[ 
-// c229
-  10
-        // c230
-    ] 	 // c231
-  fs6 // c232a
-  // c232b
-  ,
-	@rightPad	// c234a
-
-  // c234b
-
-	(// c235a
-// c235b
-  	)  // c236
-  char[11 // c238a
-	// c238b
-  ]	// c239
-    	fs7 ,	// c241a
-
-// c241b
-zchar[
-	7 	 // c243
-
-  ] fz 	 // c245
+int8  // c138
+lint8 	 // c139a
+    // c139b
   , 
-    // c246
+    // c140
+  i16 	 // c141
+    si16 // c142
+	  , 
+    // c143
+    int16
+    lint16// c145a
+// c145b
+	, 
+    // c146
+	i32// c147a
+	// c147b
+si32  // c148a
+// c148b
+	,
+    // c149
 
-@leftPad
-    // c247
+  int32// c150a
+    // c150b
+lint32
+// c151
+,// c152
+    i64
+    si64
+        // c154
+    , 
 
+    // c155
+	int64 	 // c156
+
+lint64 
+    // c157
+	,  // c158
+    f32 	 // c159a
+  // c159b
+  	sf32	// c160
+
+,	float32// c162
+
+lfloat32  // c163a
+    // c163b
+  , 
+  // c164
+  	f64	// c165
+  sf64 
+
+// c166
+	,// c167a
+
+  // c167b
+    	float64// c168
+		lfloat64,	// c170a
+	// c170b
+  char[ 6  ]fsplain
+// c174
+  ,  
+  // c175
+@leftPad	// c176
+  	( // c177
+  '0' 
+	    // c178
+)// c179a
+    // c179b
+	char[  // c180a
+    // c180b
+		4
+    // c181
+	]  // c182
+		fs0  // c183a
+  	// c183b
+, // c184a
+
+	// c184b
+
+	@rightPad 
+
+    // c185
+    ( 	 // c186a
+    // c186b
+'0' // c187a
+      // c187b
+	)  // c188a
+
+// c188b
+		char[
+	    // c189
+5
+// c190
+
+	]fs1 
+
+// c192
+
+  , // c193a
+    // c193b
+	  @leftPad// c194a
+// c194b
+  (// c195a
+	// c195b
+    ' ' ) // c197
+
+char[ 
+// c198
+    6 
+        // c199
+  ]	// c200a
+	// c200b
+
+fs2  // c201a
+	// c201b
+  ,
+
+    @rightPad	// c203a
+// c203b
 (
+        // c204
+' ' 
+	    // c205
+	) 
+      // c206
+    char[ 
+	    // c207
+    7] 
+  // c209
 
-// c248
-	'0'  // c249
+fs3// c210
+	,
+
+    // c211
+
+	@leftPad // c212a
+    // c212b
+(  
+  // c213
+  '\x00' 
+    // c214
+)	// c215
+
+char[  // c216
+
+8 ] 	 // c218a
+	// c218b
+      fs4,  @rightPad(	'\x00'	// c223
+  ) 	 // c224a
+	// c224b
+
+char[  
+  // c225
+	9
+] 	 // c227a
+    	// c227b
+  fs5	// c228a
+// c228b
+  ,
+	@leftPad// c230
+
+(// c231a
+	// c231b
+      )	char[	// c233a
+// c233b
+
+  10
+
+// c234
+] 	 // c235
+	fs6
+// c236
+    ,	// c237
+    @rightPad 	 // c238
+(  // c239
+  ) // c240a
+// c240b
+  char[// c241
+		11 
+	// c242
+	  ] 	 // c243
+	fs7 
+
+// c244
+		, 
+  // c245
+  zchar[// c246
+	7  
+  // c247
+  ] // c248a
+    // c248b
+	fz
+	, 	 // c250
+@leftPad // c251
+    (  // c252a
+
+// c252b
+'0' )// c254a
+  	// c254b
+	zchar[ 
+3 ]
+	    // c257
+  fzl0 // c258
+,
+    string
+
+s1
+
+`doc`
+// c262
+    , 	 // c263
+  char[]
+    // c264
+s2  // c265
+    ,// c266a
+    // c266b
+      Inner
+    // c267
+    	,  // c268a
+    // c268b
+      Sub 	 // c269
+
+{ // c270a
+	  // c270b
+  	u8
+
+// c271
+q  // c272
+,
+    // c273
+string 
+
+// c274
+		w 	 // c275
+  , // c276a
+  // c276b
+    Deep	{	// c278a
+
+// c278b
+u16// c279a
+    // c279b
+z	// c280
+  	,repeat 	 // c282a
+  // c282b
+	i32	// c283
+  	zs  ,// c285a
+  // c285b
+
+	}
+,	// c287
+      } ,	// c289
+    	repeat 
+        // c290
+u8
+    // c291
+	ru8 
+  // c292
+    , 	 // c293
+  repeat  
+  // c294
+u16// c295a
+  // c295b
+    	ru16 	 // c296a
+// c296b
+
+  , 	 // c297
+  repeat // c298a
+
+  // c298b
+  u32// c299
+	ru32// c300
+  	,
+
+// c301
+
+  repeat// c302a
+// c302b
+    u64 	 // c303a
+	  // c303b
+	ru64
+
+// c304
+    , 	 // c305
+	repeat// c306
+    i8 
+    // c307
+    ri8	,repeat  // c310a
+		// c310b
+		i16 
+    // c311
+	ri16// c312
+,
+    repeat i32  // c315a
+    // c315b
+ri32  
+  // c316
+	, // c317a
+	// c317b
+		repeat
+
+    i64  // c319
+  ri64// c320a
+
+// c320b
+    ,	// c321
+  repeat
+
+f32// c323a
+	// c323b
+    	rf32 	 // c324a
+	// c324b
+
+	,
+    // c325
+repeat
+// c326
+
+f64
+// c327
+rf64 
+  // c328
+  , repeat 	 // c330
+		string	rstr  , 	 // c333
+  repeat char[] // c335
+
+rstr2 	 // c336
+	, 	 // c337a
+  // c337b
+      repeat 
+
+// c338
+	char[ 
+3 // c340a
+    	// c340b
+
+]// c341
+      rfs  // c342a
+  	// c342b
+      ,  
+      // c343
+repeat
+    zchar[ 3 
+    // c346
+
+]
+    // c347
+rfz// c348a
+  // c348b
+,
+
+repeat 	 // c350
+  Inner2	// c351a
+  // c351b
+	,  
+  // c352
+
+repeat
+Grp	{ 	 // c355a
+      // c355b
+	  u8  // c356a
+	// c356b
+
+  k
+
+// c357
+    	,
+	    // c358
+
+  char[
+
+    2 // c360
+	] 
+    // c361
+  	v  // c362
+	, 
+}
+    , 
+
+    // c365
+
+SeqNum // c366
+,	// c367
+  SeqNum 
+    // c368
+	seq2 
+// c369
+	  , // c370a
+		// c370b
+repeat// c371
+	SeqNum 
+seqs 
+        // c373
+
+	,
+	    // c374
+      Symbol  // c375
+    	,// c376
+  AltSymbol	// c377a
+	// c377b
+      alt	,	// c379a
+  	// c379b
+ZSym	// c380a
+  // c380b
+, 	 // c381a
+		// c381b
+Note
+
+    ,  // c383
+	repeat Symbol
+
+// c385
+syms // c386a
+  // c386b
+	,	// c387
+      Price px
+,  // c390
+  u16
+MsgType// c392
+,u32 
+// c394
+	BodyLen@lengthOf(
+	    // c396
+Body  // c397a
+	// c397b
 
 ) 
-// c250
+	// c398
+    	, // c399
+match
+    // c400
+    	MsgType 
+    // c401
+as	// c402
 
-	zchar[// c251a
-    // c251b
-  3  // c252a
-// c252b
+Body  
+  // c403
 
-] // c253
-    	fzl0 // c254a
-  // c254b
-    , // c255
+	{ 
+    // c404
+  1 // c405a
+	// c405b
+      :
 
-string// c256
-	s1 
-    // c257
+Logon 
+	// c407
+	,  [ // c409a
+  // c409b
 
-  `doc`  // c258a
-
-// c258b
-  , 	 // c259a
-	// c259b
-  	char[]  
-  // c260
-	  s2	// c261
-    , 	 // c262
-	Inner
-    // c263
-	, Sub
-
-    {// c266a
-  	// c266b
-	u8 
-      // c267
-	q// c268
-
-,
-
-string w  // c271a
-// c271b
-  , 
-  // c272
-    Deep 	 // c273a
-		// c273b
-      {
-u16  // c275
-
-	z// c276a
-    // c276b
-	, // c277
-  repeat
-    i32// c279a
-
-	// c279b
-  zs // c280a
-
-// c280b
-	, 
-
-// c281
-	} 
-// c282
-, 
-    // c283
-    } 
-
-    // c284
-		,  repeat	// c286
-	u8
-	ru8 
-,  // c289
-
-  repeat 
-u16  // c291
-	  ru16	// c292
-, 	 // c293a
-// c293b
-		repeat 
-    // c294
-  u32
-
-ru32 // c296a
-
-// c296b
-		,	// c297
-  repeat 	 // c298a
-
-// c298b
-
-  u64 
-      // c299
-      ru64	,
-repeat 
-      // c302
-  i8
-
-    // c303
-
-ri8 	 // c304a
-// c304b
-
-,  repeat	// c306
-	i16 	 // c307a
-// c307b
-ri16 
-	    // c308
-  ,repeat i32 // c311a
-	// c311b
-  ri32// c312a
-	// c312b
-, 
-    // c313
-
-  repeat 
-      // c314
-
-i64 ri64// c316
-    ,
-	    // c317
-  	repeat 	 // c318
-    f32 
-rf32,
-        // c321
-  repeat// c322
-    	f64// c323
-
-  rf64 
-        // c324
-,
-    // c325
-    repeat// c326a
-	// c326b
-	  string// c327
-	rstr ,
-	    // c329
-    	repeat 
-
-// c330
-char[] 	 // c331
-  rstr2 // c332
-  ,  // c333a
-
-  // c333b
-      repeat
-    char[	// c335a
-// c335b
-	3// c336a
-  // c336b
-	]// c337a
-
-// c337b
-
-  rfs 
-, 	 // c339
-repeat zchar[
-	// c341
-	3	// c342a
-	// c342b
-	] 	 // c343
-rfz
-,
-    repeat // c346
-	Inner2,	// c348
-	repeat Grp
-// c350
-  {
-u8 
-        // c352
-	k // c353a
-  	// c353b
+2
 	,
-	    // c354
-    	char[	// c355
-	2  
-      // c356
-    ]  
-  // c357
-	v// c358
-		, 
-    // c359
-  	} 
-        // c360
-  ,  // c361a
-    // c361b
-    SeqNum
-,  
-  // c363
+    3	// c412a
+	// c412b
+	] 	 // c413a
+  	// c413b
+	: 	 // c414
 
-	SeqNum seq2  // c365a
-  	// c365b
-  ,
+Logout	// c415
+  ,  // c416a
+    // c416b
+      7 :
+
+    Logon 	 // c419
+, 
+        // c420
+9 
+        // c421
+	: 
+
+// c422
+	  Empty	// c423a
+  // c423b
+  ,	// c424a
+// c424b
+  	} // c425a
+    // c425b
+    , 
+
+// c426
+u32// c427a
+// c427b
+  	Checksum
+@calculatedFrom( 
+    // c429
+    ""CRC32""
+// c430
+	),
+}
+")).
+Eval vm_compute in ("<<<M269>>>" ++ check (runes_of_ascii "// trailing space 
+root packet
+    matchKey {u128 // c
+, uint8 x
+@calculatedFrom( """ ++ [233]%N ++ runes_of_ascii "t" ++ [233]%N ++ runes_of_ascii """ // " ++ [27880; 37322]%N ++ runes_of_ascii "
+)
+,
+i64
+    f32a @calculatedFrom(
+    """ ++ [28040; 24687]%N ++ runes_of_ascii """
+)
+`crlf
+line`  ,}
+    MetaData
+    zchar // packet A { u8 x, }
+{ // a // b
+char[4294967296 ]
+// " ++ [27880; 37322]%N ++ runes_of_ascii "
+/// triple
+string_ , x
+i8i8
+    , char[ 7 ]// " ++ [27880; 37322]%N ++ runes_of_ascii "
+Z9_
+    `tab	here`, }
+    // trailing space 
+    root packet
+o{@leftPad
+    ('\x00'
+)
+//x
+// 50% %s
+@tag( 10 ) @tag(
+    10) string // " ++ [128512]%N ++ runes_of_ascii " emoji
+u`doc` ,
+    @leftPad( )char[65535
+// trailing space 
+// packet A { u8 x, }
+]
+    //	t
+    body ,
+/// triple
+// 50% %s
+repeat pack  {rootA ``,//	t
+repeat body // packet A { u8 x, }
+, string Packet// trailing space 
+, }
+    , @lengthOf( stringy )
+    // trailing space 
+    repeat _x { BodyLength// trailing space 
+{
+    repeatCount
+// c
+/// triple
+{zchar[65535 ] As
+,
+// @lengthOf(
+// c
+options1  ,
+float32
+    len, zchar[7
+// packet A { u8 x, }
+// c
+]
+rootA
+`u8 x,` // `tick` ""quote"" 'q'
+,
+}, i64  falsey @lengthOf(uint8x ) ,
+char[
+    00 ]
+crc
+,
+}  , } , tag
+@calculatedFrom(
+""// no comment""
+)	`100% of %d`, }
+packet
+Pad { f32
+    Logon`
+`, body
+    @lengthOf(
+u8x)
+    `" ++ [28040; 24687; 31867; 22411]%N ++ runes_of_ascii "` , @lengthOf( Z9_// " ++ [128512]%N ++ runes_of_ascii " emoji
+) packetx @calculatedFrom( """ ++ [28040; 24687]%N ++ runes_of_ascii """
+)  ,x
+{ zchar[
+    3 ]
+    body
+,Header
+@calculatedFrom(""a	b""), char[]	u128 `it's` // @lengthOf(
+, i8 metadata ,}
+    , match i64_ as string_ { [ 3 ,
+255 // c
+,
+    007
+    , ""packet""
+    ,65535
+// @lengthOf(
+// 50% %s
+,""// no comment"",
+""a	b"" ,// packet A { u8 x, }
+007] // trailing space 
+:options1 4294967296
+    // " ++ [27880; 37322]%N ++ runes_of_ascii "
+    : len,
+""CRC32""	:pack
+""" ++ [28040; 24687]%N ++ runes_of_ascii """
+    : options1
+    , [0 // `tick` ""quote"" 'q'
+]
+    // `tick` ""quote"" 'q'
+    : Header ,[ 00 ]
+    : As // trailing space 
+, }
+,@lengthOf(
+    // c
+    tag ) metadata @calculatedFrom(
+""CRC32"" )
+    ,//	t
+@tag( // packet A { u8 x, }
+3)repeat //x
+string pack , Pad ,@rightPad ( )  tag { leftPad @calculatedFrom(  """ ++ [233]%N ++ runes_of_ascii "t" ++ [233]%N ++ runes_of_ascii """	),
+string chars ,
+    char[
+4294967296 ]
+i64_
+`" ++ [233]%N ++ runes_of_ascii "` , repeat charz
+zchar,  }
+    ,} options { pack
+=""abc"" ;pack = i8// packet A { u8 x, }
+; }")).
+Eval vm_compute in ("<<<M147>>>" ++ check (runes_of_ascii "//	t
+packet asx
+{ repeat i32 u8x ,
+    @calculatedFrom( ""it's""
+)
+    match uint8x as matchKey { 1  :
+// packet A { u8 x, }
+// " ++ [128512]%N ++ runes_of_ascii " emoji
+chars ,
+    // `tick` ""quote"" 'q'
+    [255 ]
+:
+    matchKey
+, ""a	b"":	pack ,
+    """" :	trueish
+}, @leftPad ( '\x00')
+char[]	A@calculatedFrom(""a\\""
+    ),
+    // trailing space 
+    match //	t
+MetaDataX as uint8x {
+    [ ""a	b""
+] : As  } , uint8x
+{ matchKey {int x_y_z
+    // packet A { u8 x, }
+    ,}
+    , //
+}// @lengthOf(
+, u8 Logon @lengthOf(  matchKey
+    ) , float64 msg_type
+@lengthOf( zchar ) ,float x_y_z , @rightPad (  '\x00')match	matchKey	as	lengthOf { [ """ ++ [233]%N ++ runes_of_ascii "t" ++ [233]%N ++ runes_of_ascii """
+// packet A { u8 x, }
+// 50% %s
+,	""{,}""	,3	,// @lengthOf(
+""\n""
+    , 0
+, ""1"" ,""x y"" ] : u
+, 10 : // 50% %s
+f32a  , 1: chars // @lengthOf(
+,42
+: Foo 65535: Header
+    ,["""" ] : //x
+body , } ,
+    //x
+    match
+metadata as trueish { """"
+:metadata ,""`tick`""
+    : float,	255 : x ,
+    } ,
+} packet trueish { @lengthOf( stringy ) zchar[ 7 ] x `crlf
+line` ,
+repeat MetaDataX { i16 Z9_ `two words` , },  @lengthOf( zchar//
+) match metadata as	a1 {
+    [ // " ++ [128512]%N ++ runes_of_ascii " emoji
+""CRC32"" ] : i8i8 ,""a	b""
+    :x_y_z ,[ ""1""
+,""abc"" ,007 , // `tick` ""quote"" 'q'
+4294967296 , 00	,
+""// no comment"" ,
+    // `tick` ""quote"" 'q'
+    ""a\""b""  ]	:
+chars , [ ""`tick`"" , ""\" ++ [233]%N ++ runes_of_ascii """ ,	""x y""
+,
+""a	b"" , ""a\""b""
+, ""`tick`""
+    //x
+    ,
+00	] : leftPad, 65535 : Z9_
+    // " ++ [128512]%N ++ runes_of_ascii " emoji
+    , } , @lengthOf(
+falsey )
+repeat
+    i8i8 ,@calculatedFrom( ""\n"" )// a // b
+char[ 42	] // `tick` ""quote"" 'q'
+charz  @calculatedFrom( """ ++ [128512]%N ++ runes_of_ascii """)
+    , repeat char[] stringy `tab	here`, Packet  @lengthOf( BodyLength )  `" ++ [28040; 24687; 31867; 22411]%N ++ runes_of_ascii "` ,
+string u128, i8 o
+// c
+// 50% %s
+`
+` , // 50% %s
+@leftPad (
+'0'
+    ) repeat
+string Header, } options{ crc =char[007
+] packetx=7 ;	} 	 ")).
+Eval vm_compute in ("<<<M671>>>" ++ check (runes_of_ascii "MetaData float { u32 x,T body
+    /// triple
+    ,
+    string msg_type , } root packet
+options1	{ @lengthOf( chars) @calculatedFrom( ""\" ++ [233]%N ++ runes_of_ascii """ )
+    @leftPad
+('\x00')  zchar[ 0 ]a1 @calculatedFrom(""a\\""
+    ) , @lengthOf( i8i8) int64// c
+crc//	t
+, @rightPad ('0'// 50% %s
+)
+    repeat
+    char[ 4294967296]As , @rightPad (
+'0' ) repeat pack
+{ match u8x as stringy {""a\""b""
+:
+// trailing space 
+// " ++ [27880; 37322]%N ++ runes_of_ascii "
+lengthOf ,
+    """ ++ [233]%N ++ runes_of_ascii "t" ++ [233]%N ++ runes_of_ascii """	: a1 , """ ++ [128512]%N ++ runes_of_ascii """	: Pad ,
+    ""\" ++ [233]%N ++ runes_of_ascii """
+    : metadata,
+    [//	t
+255 , 3 ] // trailing space 
+:crc
+// @lengthOf(
+// `tick` ""quote"" 'q'
+,
+} , }  ,
+    // " ++ [128512]%N ++ runes_of_ascii " emoji
+    repeat falsey//x
+, @calculatedFrom( ""// no comment""
+) repeat float64 Logon , repeat //
+zchar[ 4294967296	] Foo
+//x
+// @lengthOf(
+,}MetaData stringy
+    { char[ 65535 ] stringy `two words`
+//
+// " ++ [128512]%N ++ runes_of_ascii " emoji
+, i64_ calculatedFrom `say ""hi""` ,stringy float , // 50% %s
+i8
+o  ,
+i8 //	t
+T	, }
+MetaData roots { uint8x // " ++ [27880; 37322]%N ++ runes_of_ascii "
+leftPad	`{ , }` , // " ++ [27880; 37322]%N ++ runes_of_ascii "
+string
+    options1
+    ,char[]tag ,
+    }
+packet uint8x
+{ @lengthOf(crc )
+// " ++ [128512]%N ++ runes_of_ascii " emoji
+/// triple
+@tag( 255)//x
+f32
+metadata `// not a comment`// " ++ [27880; 37322]%N ++ runes_of_ascii "
+,//	t
+@rightPad
+    // " ++ [128512]%N ++ runes_of_ascii " emoji
+    ( ' ' )
+repeat
+f32a //	t
+,	stringy // " ++ [128512]%N ++ runes_of_ascii " emoji
+{ f32a calculatedFrom `crlf
+line`,
+crc @lengthOf( i64_ ) `crlf
+line` ,	charz
+// trailing space 
+// packet A { u8 x, }
+`doc` ,
+    repeat  int16
+    packetx	, } ,
+    matchKey o ,
+@calculatedFrom(""it's"" ) MetaDataX @lengthOf(tag) `100% of %d` ,}")).
+Eval vm_compute in ("<<<M1254>>>" ++ check (runes_of_ascii "packet
+Pad
+{ int64 body //	t
+`" ++ [28040; 24687; 31867; 22411]%N ++ runes_of_ascii "`
+    , @rightPad ( // a // b
+' '	)repeat
+f32 calculatedFrom `` , match msg_type as
+int// packet A { u8 x, }
+{ ""1"" : As
+,""a	b""
+: A , ""x y""
+:repeatCount
+    ,""" ++ [128512]%N ++ runes_of_ascii """ :u8x [  7, 65535]:lengthOf , } , @tag(
+    3 )
+@lengthOf(	asx )
+@rightPad(
+    '\x00' //	t
+) string_ body`line1
+line2` , char[ 7 ] Foo @calculatedFrom( ""// no comment"")	,@lengthOf( Pad//	t
+) trueish
+pack `a\`,  @calculatedFrom( ""{,}"" )@tag( 3
+    )
+char[ 0123456789// `tick` ""quote"" 'q'
+]roots
+    @lengthOf( //	t
+packetx )`tab	here`
+// " ++ [27880; 37322]%N ++ runes_of_ascii "
+//	t
+,@calculatedFrom( ""a	b""
+)
+match
+// " ++ [27880; 37322]%N ++ runes_of_ascii "
+// @lengthOf(
+f32a as asx { 42 :
+    lengthOf ,[	0123456789 ,1] : asx
+,
+    [ //	t
+42
+    , 0123456789
+// c
+//x
+, 00 ,
+    ""1"" ,  3  ,65535 , // trailing space 
+""it's"" , 3 ]:// packet A { u8 x, }
+msg_type	,
+    ""packet"" : repeatCount , """"
+    :  chars },
+zchar[0] u
+, }// c
+MetaData
+    // " ++ [128512]%N ++ runes_of_ascii " emoji
+    charz {
+zchar[007]Logon	`{ , }`
+,u8x
+    a1  `
+` ,
+    f32a
+i8i8
+,
+i32
+int
+,
+packetx repeatCount `
+`,
+    //x
+    } MetaData metadata{
+matchKey
+Header
+    // a // b
+    , string	o`a\`	, zchar[ 1 ]chars , i64 f32a  `100% of %d`,
+uint64  crc `tab	here` , zchar[ //	t
+10] matchKey ,  } root packet _x { @leftPad // trailing space 
+( ) char[
+00
+] BodyLength
+`" ++ [233]%N ++ runes_of_ascii "` ,}
+
+")).
+Eval vm_compute in ("<<<M998>>>" ++ check (runes_of_ascii "MetaData len
+    {  tag
+    o,
+}options
+    {	As =
+true ;
+lengthOf
+=
+    3 // `tick` ""quote"" 'q'
+x =int8 } root
+packet metadata { @calculatedFrom(""" ++ [128512]%N ++ runes_of_ascii """ )
+i64_ Header`it's`, }packet zchar { }// a // b
+packet
+packetx
+{
+    char[3 ] packetx , @lengthOf( matchKey ) @calculatedFrom( // a // b
+""1"" ) @calculatedFrom(""x y"") uint32 msg_type @calculatedFrom( """") `crlf
+line` , @calculatedFrom(""" ++ [28040; 24687]%N ++ runes_of_ascii """
+    ) @lengthOf(rootA) @leftPad
+()
+matchKey@lengthOf(	f32a) `100% of %d` //	t
+, char[
+    1 ]	repeatCount@calculatedFrom(
+""" ++ [128512]%N ++ runes_of_ascii """ // 50% %s
+)  , @lengthOf( i64_
+    ) char[]
+// trailing space 
+// " ++ [128512]%N ++ runes_of_ascii " emoji
+f32a @lengthOf(
+Pad ) ,
+@leftPad ( ) repeat tag { stringy
+    @calculatedFrom(	""\n"")
+, match
+chars  as // " ++ [128512]%N ++ runes_of_ascii " emoji
+x_y_z{ 42 : repeatCount """ ++ [28040; 24687]%N ++ runes_of_ascii """ : pack ,},	char[
+    // 50% %s
+    3 ] x_y_z@lengthOf(
+    body
+    )`crlf
+line` ,o{	repeat
+zchar[00 ] matchKey ,
+// packet A { u8 x, }
+// " ++ [128512]%N ++ runes_of_ascii " emoji
+repeat // packet A { u8 x, }
+char[
+// 50% %s
+// a // b
+1]
+//	t
+// @lengthOf(
+repeatCount`" ++ [28040; 24687; 31867; 22411]%N ++ runes_of_ascii "` , },
+// 50% %s
+// " ++ [128512]%N ++ runes_of_ascii " emoji
+}  ,
+    @calculatedFrom(	""{,}""
+) packetx
+    lengthOf`it's`
+    , repeat string_ { lengthOf roots `u8 x,`	,repeat f64 // c
+charz `// not a comment` , }  , }
+")).
+Eval vm_compute in ("<<<M1118>>>" ++ check (runes_of_ascii "root packet u8x { match packetx// " ++ [27880; 37322]%N ++ runes_of_ascii "
+as
+Z9_ {
+    [ ""it's""
+    // " ++ [27880; 37322]%N ++ runes_of_ascii "
+    ,  ""{,}""	]
+:_x // 50% %s
+} , @calculatedFrom( ""\" ++ [233]%N ++ runes_of_ascii """
+)
+/// triple
+// " ++ [27880; 37322]%N ++ runes_of_ascii "
+char[ 10 ]
+leftPad `doc`, uint16 metadata`{ , }`
+    ,
+a1@calculatedFrom(""" ++ [233]%N ++ runes_of_ascii "t" ++ [233]%N ++ runes_of_ascii """ )
+    ,
+@leftPad (
+    ' ' ) repeat // trailing space 
+pack	{
+    char[]
+chars
+    //x
+    `" ++ [233]%N ++ runes_of_ascii "`	, }
+    ,} packet
+    msg_type {
+repeat char[ 10 ]
+// trailing space 
+//
+Z9_`a\` , @lengthOf( As ) match
+    i64_ as msg_type { 4294967296 :Header
+    /// triple
+    ,65535: options1 ,
+//
+//x
+""1"": f32a
+    , 0123456789
+: x_y_z , 65535:
+    Foo , }
+,/// triple
+repeat tag `" ++ [28040; 24687; 31867; 22411]%N ++ runes_of_ascii "` ,
+    // @lengthOf(
+    float32
+body@lengthOf(
+BodyLength
+)
+`it's`,f64
+uint8x,
+@lengthOf(
+    asx )@rightPad('0' )	@calculatedFrom(""// no comment""  )i8
+    options1  @lengthOf(
+    charz
+) , // trailing space 
+zchar[	10 ] a1// c
+@calculatedFrom(""a\""b"" ) , repeat
+i8i8
+{  msg_type {
+    char[255 //x
+] T , repeat
+    i8 len
+`" ++ [233]%N ++ runes_of_ascii "` ,
+i64
+matchKey@lengthOf(
+// @lengthOf(
+// " ++ [27880; 37322]%N ++ runes_of_ascii "
+tag // 50% %s
+) ,repeat char[ 10 ]// " ++ [128512]%N ++ runes_of_ascii " emoji
+len`tab	here`	, } , }// `tick` ""quote"" 'q'
+,} //
+root packet Header
+{ }
+")).
+Eval vm_compute in ("<<<M3641>>>" ++ check (runes_of_ascii "
+root
+packet rootA  // `tick` ""quote"" 'q'
+      {  u8	//x
+
+a1
+
+    ,repeat	x_y_z	{ zchar[ 
+65535 
+]
+    o//
+	`it's`
+
+,
+	} , @tag(
+    42 )
+
+@calculatedFrom( ""{,}""// trailing space 
+  	) @tag(42
+) string// a // b
+
+  lengthOf `u8 x,`
+
+,
+zchar[42 ] 
+i64_
+,
+repeat  metadata {msg_type	@lengthOf( x )
+	,
+    }
+
+, @tag(
+	3) matchKey
+	{ int32  matchKey
+,  repeat	uint8x  falsey
+	, roots
+{u8x@calculatedFrom(""a\""b"" )
+    ,
+    // `tick` ""quote"" 'q'
+	zchar[  42
+]
+
+i8i8
+    `doc`
+    ,
+
+repeat
+float64 
+f32a
+`say ""hi""`
+, 
+    // a // b
+
+	repeat
+zchar // 50% %s
+  , 
+}
+    //	t
+  , }
+,
+    u128
+	{	char[] 
+      // packet A { u8 x, }
+
+A @calculatedFrom( """ ++ [233]%N ++ runes_of_ascii "t" ++ [233]%N ++ runes_of_ascii """	)
+	// 50% %s
+
+`
+`
+, repeat
+	lengthOf	stringy 
+,} 
+,
+@calculatedFrom(
+
+    """ ++ [28040; 24687]%N ++ runes_of_ascii """ // " ++ [27880; 37322]%N ++ runes_of_ascii "
+
+  )	float64 
+MetaDataX ,
+	}
+	options 
+{ 
+Pad =//	t
+	""" ++ [28040; 24687]%N ++ runes_of_ascii """
+	;
+a1
+
+    = int32
+o 
+	// `tick` ""quote"" 'q'
+	=255
+    ;string_
+=
+
+    f64	falsey
+        // 50% %s
+=007	}  //	t
+    packet BodyLength  { @tag(
+7
+    )
+
+    repeat
+    float  ,
+    }
+MetaData  MetaDataX	{
+
+    } ")).
+Eval vm_compute in ("<<<M167>>>" ++ check (runes_of_ascii "packet Foo {  @calculatedFrom( """"	)
+@calculatedFrom( ""1"" ) @rightPad(
+) int32
+    As
+@calculatedFrom( """" )
+    `a\`
+//x
+//	t
+,
+@calculatedFrom( ""\n"" )
+char[65535// @lengthOf(
+] asx ,repeat // a // b
+int8
+    // packet A { u8 x, }
+    trueish `` , } packet
+A { @tag(4294967296 ) uint16 Logon @calculatedFrom(
+    // `tick` ""quote"" 'q'
+    """ ++ [233]%N ++ runes_of_ascii "t" ++ [233]%N ++ runes_of_ascii """ ), // `tick` ""quote"" 'q'
+@lengthOf( As )
+repeat MetaDataX
+    falsey
+`u8 x,` ,@calculatedFrom(""\n""
+    )	match repeatCount
+as
+A {	4294967296 :
+zchar
+    } , match
+crc
+    // `tick` ""quote"" 'q'
+    as float { 255
+    :u , } ,} root
+/// triple
+//	t
+packet matchKey { string MetaDataX `a\`
+, BodyLength
+{ match repeatCount as
+len {//x
+""" ++ [28040; 24687]%N ++ runes_of_ascii """ : asx 3  :
+MetaDataX , """ ++ [28040; 24687]%N ++ runes_of_ascii """:// 50% %s
+len
+    ,  ""x y"":msg_type
+,  [
+    4294967296 ]
+: asx ,
+    ""it's""	: repeatCount ,}, zchar[ 0123456789
+] Z9_ @calculatedFrom( ""a\\""  ) ,	repeat  zchar[10 ] lengthOf `
+`,
+uint16 tag `u8 x,` , } // " ++ [27880; 37322]%N ++ runes_of_ascii "
+,@leftPad
+    ( ) u128 trueish,
+    // c
+    }")).
+Eval vm_compute in ("<<<M398>>>" ++ check (runes_of_ascii "root packet rootA // `tick` ""quote"" 'q'
+{ u8 //x
+a1 , repeat x_y_z { zchar[ 65535
+]	o //
+`it's`,} ,
+@tag( 42	) @calculatedFrom( ""{,}"" // trailing space 
+) @tag(42 ) string // a // b
+lengthOf `u8 x,`
+, zchar[ 42 ]
+i64_,
+    repeat metadata{msg_type
+@lengthOf(x)
+, },@tag( 3 )matchKey {
+int32 matchKey
+    , repeat
+    uint8x falsey	, roots {u8x @calculatedFrom( ""a\""b"" )  ,
+    // `tick` ""quote"" 'q'
+    zchar[ 42 ] i8i8 `doc`, repeat	float64 f32a`say ""hi""`	,
+    // a // b
+    repeat	zchar // 50% %s
+, }
+    //	t
+    ,
+} , u128  {
+    char[]
+    // packet A { u8 x, }
+    A @calculatedFrom(
+""" ++ [233]%N ++ runes_of_ascii "t" ++ [233]%N ++ runes_of_ascii """)
+    // 50% %s
+    `
+`, repeat lengthOf stringy , } , @calculatedFrom(
+""" ++ [28040; 24687]%N ++ runes_of_ascii """// " ++ [27880; 37322]%N ++ runes_of_ascii "
+)
+    float64  MetaDataX
+    , } options {
+    Pad = //	t
+""" ++ [28040; 24687]%N ++ runes_of_ascii """ ;
+a1
+=
+    int32
+o
+    // `tick` ""quote"" 'q'
+    =
+255 ;string_ = f64 falsey
+    // 50% %s
+    = 007} //	t
+packet BodyLength  {@tag( 7 ) repeat float ,} MetaData MetaDataX
+{
+}
+")).
+Eval vm_compute in ("<<<M184>>>" ++ check (runes_of_ascii "
+MetaData
+    //x
+    float {u8 uint8x ,
+// @lengthOf(
+// packet A { u8 x, }
+} options {}	root packet T /// triple
+{ u , }
+    packet
+x_y_z // c
+{@lengthOf( T
+) asx lengthOf `
+`, repeat
+    f64
+// c
+// a // b
+metadata
+    ,char[
+    4294967296
+    ] u8x ,	repeat
+    uint8 zchar, // a // b
+@tag(
+    0123456789)  repeat i64
+_x,u16
+u
+    // `tick` ""quote"" 'q'
+    ,match roots as
+Header { 007 : zchar
+    // packet A { u8 x, }
+    ""it's""
+: rootA , [""it's""
+    ,""\n"", ""x y"" , 00 ,
+    42  ,
+""it's""
+    ]
+    : len , 0 :Z9_	, //x
+},match Logon as falsey {4294967296 : T
+    ""CRC32"" : u8x , [
+""" ++ [28040; 24687]%N ++ runes_of_ascii """
+    , ""1"" , ""it's"" , ""a\\"" , 3
+    ,
+4294967296 , """ ++ [128512]%N ++ runes_of_ascii """
+// " ++ [27880; 37322]%N ++ runes_of_ascii "
+// @lengthOf(
+, ""CRC32"" ]
+: _x ,
+[
+""// no comment"" ,// trailing space 
+0123456789 ,
+    10 , 65535 , """ ++ [128512]%N ++ runes_of_ascii """] : T , 42:
+    lengthOf ,0 :x_y_z
+    , } ,
+    match crc as u8x {[
+42]:repeatCount 0 : calculatedFrom , } , }
+
+")).
+Eval vm_compute in ("<<<M233>>>" ++ check (runes_of_ascii "
+packet msg_type
+{ match
+    x_y_z as i8i8  { 0:As
+// `tick` ""quote"" 'q'
+//
+,""packet"":
+    // " ++ [27880; 37322]%N ++ runes_of_ascii "
+    T
+    , [
+65535 , ""1"" ,00 , """ ++ [128512]%N ++ runes_of_ascii """
+,  4294967296,
+// " ++ [27880; 37322]%N ++ runes_of_ascii "
+//	t
+4294967296 ] : Logon// `tick` ""quote"" 'q'
+,
+[  ""\n"" ,// @lengthOf(
+""packet"" ,
+""// no comment""  ,1 , 1 ,
+    ""`tick`""]  : rootA ,0123456789:falsey , } , As o , char[0 ]  float `// not a comment` , @calculatedFrom(""abc"")	@tag( 4294967296 ) repeat float32 BodyLength`crlf
+line`
+, msg_type @calculatedFrom(
+""" ++ [128512]%N ++ runes_of_ascii """ )
+// " ++ [27880; 37322]%N ++ runes_of_ascii "
+// @lengthOf(
+`a\` // `tick` ""quote"" 'q'
+,
+repeat int64 body , int16 a1 // trailing space 
+@calculatedFrom( ""it's""
+    // @lengthOf(
+    ) , i16 //x
+float `u8 x,`
+    ,
+    @leftPad // " ++ [27880; 37322]%N ++ runes_of_ascii "
+(	'\x00' // " ++ [27880; 37322]%N ++ runes_of_ascii "
+)// c
+uint32 roots ,
+    } packet Header { @calculatedFrom( ""`tick`"" ) char[
+    00 ] packetx , @lengthOf( matchKey ) repeatCount
+x_y_z
+`{ , }` ,
+}")).
+Eval vm_compute in ("<<<M3864>>>" ++ check (runes_of_ascii "  MetaData  int
+{
+
+    int	zchar
+,
+}
+packet  string_{	} packet len  {
+
+    float @lengthOf( Z9_ 
+)
+,
+    }root	packet int
+
+    {uint64 
+i64_ ,  @lengthOf(
+Logon  )string
+    float, 
+Header
+	o,
+
+    @tag(
+
+    7)
+
+    match Pad
+as
+	u128
+    // " ++ [27880; 37322]%N ++ runes_of_ascii "
+
+{ 0 : BodyLength,
+} ,
+	int64
+float 
+@lengthOf(
+i64_ ),
+repeat
+    //x
+  // 50% %s
+    string 	 // " ++ [128512]%N ++ runes_of_ascii " emoji
+
+packetx	, 
+@leftPad
+
+(  ' ') @lengthOf(
+stringy )
+    @calculatedFrom(""CRC32""
+)  repeat
+
+metadata pack
+	,
+	// c
+
+	@lengthOf(
+
+Foo
+
+) a1
+        //	t
+  	, }
+
+    packet 
+pack
+	{
+@tag( 	 // " ++ [128512]%N ++ runes_of_ascii " emoji
+7 ) zchar[
+255  ]
+	body
+	@calculatedFrom( 
+""// no comment""
+	) , repeat
+zchar[
+
+255 ]	metadata ,
+char[ 42 
+] i8i8
+
+@calculatedFrom(
+""packet"" 
+)`two words`,
+
+Foo @calculatedFrom(
+
+    """ ++ [28040; 24687]%N ++ runes_of_ascii """
+
+    )
+	`tab	here` , 
+}
+")).
+Eval vm_compute in ("<<<M3452>>>" ++ check (runes_of_ascii "
+options { LittleEndian
+=true  ;StringPrefixLenType
+
+= u8
+;
+    FixedStringPadFromLeft
+= false	; FixedStringPadChar	='0';
+	}
+	packet  Order
+{repeat
+    string 
+Px
+,
+repeat  char[ 
+2
+] Qty
+
+, string Tail, char[]
+    OrderId 
+, int8
+tag7,
+	int64
+Flags 
+,	} packet
+
+    Party {
+	Order
+    , f32 lastPx ,
+	f32 Note
+
+    , 
+string 
+x
+,
+
+    }
+
+    packet Logon
+{uint8
+    OrderId 
+,	string
+    msgKind
+
+    ,
+
+int32
+lastPx	,	}  packet
+
+Ack
+
+    {
+
+}packet
+    Cancel {
+    repeat
+char[5	] Note
+, repeat
+    i32
+
+x 
+,
+    Ack
+, repeat  InF16{
+repeat
+i8
+sym,
+    } 
+,	char[
+	1 
+]Acct
+    ,
+
+    }	root  packet 
+Fill 
+{i32
+
+    price ,	@leftPad 
+(' ' )
+
+char[
+
+    8  ]
+
+msgKind
+	, char[]
+    Acct ,
+
+    char[] Note 
+,
+
+uint64
+venue,
+
+}
+")).
+Eval vm_compute in ("<<<M808>>>" ++ check (runes_of_ascii "root packet chars
+// 50% %s
+/// triple
+{ // a // b
+repeat u , asx // c
+@lengthOf( chars
+)	, i32 rootA , @leftPad ( )
+    msg_type
+,i64 u128, @lengthOf(Logon ) // `tick` ""quote"" 'q'
+@rightPad // trailing space 
+(
+    //x
+    ) char[ 1]
+roots//	t
+,
+@tag(	1 ) int @calculatedFrom(  ""CRC32"") `tab	here` ,repeat
+repeatCount float,char[ 65535 ] Packet
+    `// not a comment` , @lengthOf(Header)//x
+repeat string Pad`u8 x,`,} packet
+    // packet A { u8 x, }
+    metadata
+// packet A { u8 x, }
+// `tick` ""quote"" 'q'
+{x Packet ,
+    repeat
+u64 /// triple
+string_ `doc` // `tick` ""quote"" 'q'
+,
+repeat/// triple
+Packet , @tag(
+65535) zchar[  1
+] pack@lengthOf( zchar
+    ) `a\` //
+,rootA matchKey`two words` , @rightPad(
+    )stringy o
+, }
+")).
+Eval vm_compute in ("<<<M4086>>>" ++ check (runes_of_ascii "// top
+packet 
+
+    // c0
+  A 
+
+    // c1
+    {  // c2
+		match
+
+    packetx
+// c4
+    	as BodyLength  {  
+      // c7
+    007
+: // c9
+    A // c10
+    """ ++ [28040; 24687]%N ++ runes_of_ascii """	// c11
+		:	x_y_z 
+// c13
+	,
+
+    """ ++ [128512]%N ++ runes_of_ascii """ 	 // c15
+      : 
+	    // c16
+	crc 
+  // c17
+	[	// c18
+""{,}"" 	 // c19
+, ""\n""  // c21a
+  // c21b
+      , // c22a
+	// c22b
+    	""" ++ [233]%N ++ runes_of_ascii "t" ++ [233]%N ++ runes_of_ascii """
+        // c23
+    ,	// c24
+    	""x y"" // c25a
+  // c25b
+    ,
+
+""a\""b""  ] 	 // c28a
+      // c28b
+	: 	 // c29a
+// c29b
+
+  stringy 
+    // c30
+  ,  // c31a
+// c31b
+} // c32a
+	// c32b
+, // c33a
+    // c33b
+
+} // c34a
+  // c34b
+root  
+  // c35
+	packet i64_ // c37
+	{ // c38
+repeat 	 // c39
+  pack 
+	// c40
+    `100% of %d` ,// c42a
+	  // c42b
+}
+")).
+Eval vm_compute in ("<<<M326>>>" ++ check (runes_of_ascii "MetaData Foo/// triple
+{ uint32
+calculatedFrom `tab	here` ,//x
+options1
+//
+//x
+i64_ , // 50% %s
+string packetx `it's` // " ++ [128512]%N ++ runes_of_ascii " emoji
+, u32 Packet`
+` ,
+    zchar[
+1  ]
+int  `" ++ [233]%N ++ runes_of_ascii "` ,
+}
+    // `tick` ""quote"" 'q'
+    packet x_y_z	{ T ,
+    match BodyLength// @lengthOf(
+as
+    //
+    charz { [
+    ""// no comment"" , """ ++ [233]%N ++ runes_of_ascii "t" ++ [233]%N ++ runes_of_ascii """
+    ,
+""`tick`"" ,
+0123456789 ]
+    :
+Z9_ ""1"" : MetaDataX [ ""\n""
+    ]
+    :
+    matchKey , } ,
+    stringy	{ repeat uint16 float
+, zchar[ 1 ] Packet , }
+    , //
+match metadata
+as	o // " ++ [27880; 37322]%N ++ runes_of_ascii "
+{
+10 : Header ,7 : crc
+""it's"" // 50% %s
+:falsey 3: leftPad , [ 00
+, 1 // trailing space 
+, 255  , 007 // " ++ [27880; 37322]%N ++ runes_of_ascii "
+, 255
+    ] :
+    charz 4294967296 : metadata}
+    ,
+    }
+")).
+Eval vm_compute in ("<<<M745>>>" ++ check (runes_of_ascii "
+root
+    // packet A { u8 x, }
+    packet A {
+f64 chars @lengthOf( Z9_
+) ,
+@lengthOf(
+    repeatCount // `tick` ""quote"" 'q'
+) //
+match falsey as  crc{	7:_x,  } , }
+packet body{
+    @lengthOf( BodyLength ) charz // @lengthOf(
+@calculatedFrom( ""// no comment"" // " ++ [27880; 37322]%N ++ runes_of_ascii "
+) `line1
+line2` ,@calculatedFrom(  ""// no comment"" ) @leftPad ( ' ' ) @lengthOf(// `tick` ""quote"" 'q'
+body)
+options1  @lengthOf( // @lengthOf(
+string_	) `
+`
+// 50% %s
+// " ++ [128512]%N ++ runes_of_ascii " emoji
+,	match _x as
+// " ++ [128512]%N ++ runes_of_ascii " emoji
+// packet A { u8 x, }
+lengthOf { // `tick` ""quote"" 'q'
+""`tick`""
+:
+u8x ,	""abc"" :	o ,
+    // c
+    1 :metadata, [ 3 ] :
+// c
+// @lengthOf(
+uint8x,
+65535 : charz /// triple
+, } , }")).
+Eval vm_compute in ("<<<M3458>>>" ++ check (runes_of_ascii "  options{ StringPrefixLenType
+    =	u64
+	;
+
+    ArrayPrefixLenType
+    =
+
+u16
+	;
+
+    }
+    packet
+Heartbeat {	uint32
+Side2
+	,  u8 OrderId ,string Tail
+	,  InPx95{
+
+    char[3]
+
+    Note
+, char[ 2 ] count
+, 
+repeat InOrderid76{
+	char[
+12  ] f1
+
+,}
+
+,
+	uint8 lastPx
+
+    ,char[] seqNo ,}
+
+, 
+}
+
+packet 
+Leg{	zchar[
+5 ]tag7 
+,Heartbeat
+, 
+}
+    root
+packet	Reject{u8 Ref
+
+,
+
+    uint8 Flags
+	,	repeat
+	Leg
+,
+zchar[ 1 ]
+
+    venue ,	zchar[ 9
+
+    ]	clOrdID
+,u8
+
+Tail	,	u32
+
+price  @lengthOf(  Body)
+
+, match
+Tail
+	as Body	{84 
+:
+    Heartbeat ,
+6:
+    Leg
+    , },
+
+u32
+Note 
+@calculatedFrom( ""CRC32"") ,	}")).
+Eval vm_compute in ("<<<M121>>>" ++ check (runes_of_ascii "packet stringy { @lengthOf(
+chars) char calculatedFrom
+,
+repeat u8x
+    calculatedFrom`two words` ,	@leftPad ( '\x00') repeat Packet
+    {match Packet as	rootA
+{
+42 : repeatCount
+, // " ++ [128512]%N ++ runes_of_ascii " emoji
+""CRC32"" // packet A { u8 x, }
+: Pad 65535: // trailing space 
+Header, [ // `tick` ""quote"" 'q'
+""// no comment"" ,	007  ]// packet A { u8 x, }
+: Z9_, 00	:body
+    // " ++ [128512]%N ++ runes_of_ascii " emoji
+    , [ ""// no comment"" ,
+    //
+    """ ++ [28040; 24687]%N ++ runes_of_ascii """
+    , 1
+    , // a // b
+42 ,""it's""] :	metadata, }
+    ,zchar[
+    1
+    ] asx@calculatedFrom( ""// no comment"" ) , zchar[ 10 ] u8x
+,
+}, repeat char[ // " ++ [27880; 37322]%N ++ runes_of_ascii "
+0 ] // `tick` ""quote"" 'q'
+falsey,} 	 ")).
+Eval vm_compute in ("<<<M140>>>" ++ check (runes_of_ascii "
+packet T {
+    f32a {
+a1 , }// @lengthOf(
+, zchar[ 7 ]stringy `100% of %d` // @lengthOf(
+, // `tick` ""quote"" 'q'
+}
+    options {  } packet A
+{
+    @rightPad
+( )
+    @lengthOf( lengthOf// `tick` ""quote"" 'q'
+)	@tag( 1)T
+@calculatedFrom(
+    ""a\""b"" )
+`` , Header , @tag(
+// `tick` ""quote"" 'q'
+// trailing space 
+4294967296
+) options1
+    {char[] A//
+`{ , }` , match Z9_ // packet A { u8 x, }
+as rootA {
+[3, """ ++ [233]%N ++ runes_of_ascii "t" ++ [233]%N ++ runes_of_ascii """]
+    // packet A { u8 x, }
+    :Logon
+,}, options1
+Header`" ++ [233]%N ++ runes_of_ascii "`, repeat
+f64 /// triple
+MetaDataX `it's`
+,
+    },
+    // trailing space 
+    float64 BodyLength, }")).
+Eval vm_compute in ("<<<M3322>>>" ++ check (runes_of_ascii "packet MetaDataX // c1
+{
+    // c2
+} // c3
+root
+    // c4
+packet // c5a
+  // c5b
+len // c6a
+  // c6b
+{ zchar[ // c8a
+  // c8b
+7 // c9a
+  // c9b
+]
+    // c10
+matchKey @lengthOf( BodyLength // c13a
+  // c13b
+) // c14
+, // c15a
+  // c15b
+BodyLength // c16a
+  // c16b
+`// not a comment` // c17
+, match
+    // c19
+u8x as
+    // c21
+i8i8 { // c23
+""a\""b"" : stringy
+    // c26
+, [ // c28a
+  // c28b
+""`tick`"" ] : u8x // c32a
+  // c32b
+0123456789 // c33
+: options1
+    // c35
+, [ // c37a
+  // c37b
+""`tick`"" // c38
+] // c39a
+  // c39b
+: x_y_z } // c42
+,
+    // c43
+} ")).
+Eval vm_compute in ("<<<M3796>>>" ++ check (runes_of_ascii "packet crc {
+}
+
+packet pack {
+    repeat _x Foo,
+    @lengthOf(string_)
+    @rightPad()
+    @calculatedFrom(""\n"")
+    charz {
+        char[42] a1,//x
+        repeat T {
+            repeat zchar[3] T,
+        },
+        match i64_ as trueish {
+            ""`tick`"" : trueish,
+            [""" ++ [233]%N ++ runes_of_ascii "t" ++ [233]%N ++ runes_of_ascii """, 0123456789] : Foo,
+            """" : x_y_z,
+            [
+                ""\" ++ [233]%N ++ runes_of_ascii """, 3, ""a	b"", ""\" ++ [233]%N ++ runes_of_ascii """, ""x y"",
+                ""1"", ""a	b"", ""CRC32""
+            ] : asx,
+            [255] : leftPad,
+            42 : u8x,
+        },
+    },
+    o,
+}")).
+Eval vm_compute in ("<<<M4356>>>" ++ check (runes_of_ascii "options
+{LittleEndian
+=  false
+;
+
+    ArrayPrefixLenType =
+u8 ;  }
+
+    packet Reject {
+int8
+x 
+,} packet
+    Trade
+
+    {
+
+zchar[
+
+    4  ] msgKind , }
+    root
+
+    packet Leg
+
+{
+
+repeat
+i64 
+Note ,  u8 
+venue
+
+,
+
+    @leftPad (
+    '0' )
+    char[	6 ]Qty
+
+,
+
+    @rightPad ('\x00' 
+)
+
+    char[	12] count	,
+	repeat
+    Reject
+	,
 
     repeat
 
-SeqNum // c368a
-    	// c368b
+    char[ 3
 
-	seqs// c369a
-	// c369b
-    , // c370
-  	Symbol // c371
-  ,	// c372a
-    // c372b
-  AltSymbol
-alt
+] Px 
+,u16 lastPx
+, u16 Acct@lengthOf(	Body) ,
 
-, 	 // c375
-    ZSym
-
-    // c376
-,  
-  // c377
-  Note 
-    // c378
-      ,	// c379a
-
-// c379b
-  	repeat// c380a
-
-  // c380b
-	  Symbol// c381a
-
-  // c381b
-	syms
-// c382
-  ,	// c383a
-    	// c383b
-  Price px
-    // c385
-  , 
-// c386
-  u16
-	MsgType
-
-    , u32
-
-    // c390
-  BodyLen // c391
-		@lengthOf( 
-Body 	 // c393a
-
-// c393b
-    )	// c394a
-// c394b
-		,
-
-// c395
-	match  MsgType  // c397
-  as
-    Body 
-    // c399
-
-{
-// c400
-
-	1	// c401a
-	  // c401b
-
+match
+    lastPx
+as
+Body
+	{  104 
 :
-    // c402
-  	Logon 
-// c403
-  ,	// c404a
-	  // c404b
-    	[	// c405a
+Reject
+    ,61 
+:
+Trade  ,}
+	,
 
-// c405b
-    2 	 // c406
-  ,
-3 	 // c408a
-    // c408b
-  ] 	 // c409
-    : 
+    }
+")).
+Eval vm_compute in ("<<<M4112>>>" ++ check (runes_of_ascii "
 
-    // c410
-      Logout
+  options{	}	packet
 
-,// c412
-  7  :	// c414
-		Logon
-	// c415
-  , 	 // c416
-9 
-    // c417
-  :	// c418
-  Empty
-, 	 // c420
-  }// c421a
-// c421b
+o
+    { 
+@tag( 007 )
 
-  ,  
-      // c422
-u32
-    Checksum  // c424
+    a1 /// triple
+`two words`,
 
-@calculatedFrom(// c425
+@lengthOf( BodyLength) trueish	// 50% %s
 
-	""CRC32""	// c426a
-    	// c426b
-) // c427
-  	,// c428a
-	// c428b
+  { i64
+x_y_z 
+@calculatedFrom( ""`tick`"" )
+        //x
+    , 
+T	{
 
+int8	rootA 	 // c
+	@lengthOf(  MetaDataX )
+
+    ,
+	zchar[
+
+    0123456789	]
+trueish	`" ++ [28040; 24687; 31867; 22411]%N ++ runes_of_ascii "`
+,
+    chars  body
+    , 
+    // @lengthOf(
+  //	t
+	}
+    , 
+uint16
+	Pad  `{ , }`,  char[  // " ++ [27880; 37322]%N ++ runes_of_ascii "
+	1// " ++ [128512]%N ++ runes_of_ascii " emoji
+    ]
+	matchKey	, 
+},
+repeat i64_
+
+    T ,@lengthOf(
+	charz  )repeat
+    int8 i8i8, 
 }
+")).
+Eval vm_compute in ("<<<M670>>>" ++ check (runes_of_ascii "root packet
+    string_
+{ @lengthOf( roots )char[ 007	]
+zchar
+    ``
+, } packet
+Logon
+    {
+    int64 Z9_
+@calculatedFrom( ""a\\"" ),}
+    MetaData options1 {
+zchar[ 65535] i64_ , msg_type packetx`crlf
+line`
+    ,char[ 0123456789 ]Packet, options1 // packet A { u8 x, }
+As ,f32
+pack , } options { // " ++ [27880; 37322]%N ++ runes_of_ascii "
+}root
+packet uint8x {// trailing space 
+lengthOf { f64 trueish`" ++ [233]%N ++ runes_of_ascii "`, } ,@rightPad ( '0'
+)
+match A as options1
+//
+//	t
+{ ""CRC32"" :// " ++ [27880; 37322]%N ++ runes_of_ascii "
+MetaDataX ,
+}
+    , }")).
+Eval vm_compute in ("<<<M3471>>>" ++ check (runes_of_ascii "options{ LittleEndian =
+false
+; 
+ArrayPrefixLenType  =	u8 ;
+	}	packet Reject { int8	x
+,} 
+packet Trade
+	{ zchar[ 4]
+msgKind
+,} root packet
 
-    // c429")).
-Eval vm_compute in ("<<<M271>>>" ++ check (runes_of_ascii "// " ++ [27880; 37322]%N ++ runes_of_ascii "
-options
-    {
-zchar // a // b
-= ""x y""
-; options1 = u16
-;} packet
-Pad{ Z9_@calculatedFrom(
-"""")`
-` , @tag( 42
-    ) //
-@tag( 00 ) @lengthOf( zchar	) match _x// packet A { u8 x, }
-as metadata	{
-007: As ""`tick`""// packet A { u8 x, }
-: lengthOf,255 :lengthOf ""a	b""
-// trailing space 
-// " ++ [27880; 37322]%N ++ runes_of_ascii "
-:
-Packet 255: a1
-    , // c
-[ 00 ,
-    0 , 10 ,	""a\\"" , ""it's"" ,
-10, 7	]
-: Foo , }
-    , match Header
-as  o{
-[// packet A { u8 x, }
-255 ]
-    : zchar ,0123456789 :leftPad
-    [	007	, 3 ] : leftPad , // c
-0: packetx
-, } , } MetaData
-    Pad { // packet A { u8 x, }
-} packet T
-    // packet A { u8 x, }
-    {
-    // " ++ [27880; 37322]%N ++ runes_of_ascii "
-    charz
-    @lengthOf(asx) `` , }
+    Leg
+	{repeat i64
+
+    Note
+    ,u8	venue
+,
+
+@leftPad
+('0')  char[6  ]
+    Qty, @rightPad 
+(
+'\x00'
+)
+char[  12]
+    count
+    ,	repeat
+	Reject,
+	repeat
+    char[ 3 ] Px
+,
+u16 lastPx	,u16 Acct
+
+@lengthOf( 
+Body)
+
+,match
+lastPx
+	as
+
+Body {
+
+104
+:Reject
+,
+
+    61	:
+
+    Trade,}
+
+,
+}
+")).
+Eval vm_compute in ("<<<M3981>>>" ++ check (runes_of_ascii "  root
+
 packet
 matchKey
-{  @tag( 3
-) @calculatedFrom( ""a	b""
-/// triple
-// c
-)
-@calculatedFrom("""" ) pack	rootA
-    ,  repeat //	t
-leftPad `` , repeat uint32 Foo `u8 x,` , @calculatedFrom(
-""" ++ [233]%N ++ runes_of_ascii "t" ++ [233]%N ++ runes_of_ascii """) repeat char[ 65535 ] u , @lengthOf( _x )@lengthOf( u8x ) repeat zchar[ 0123456789 ] x
-, match i64_ // " ++ [27880; 37322]%N ++ runes_of_ascii "
-as falsey{ // trailing space 
-255 :
-f32a , ""{,}"" : x ,""\" ++ [233]%N ++ runes_of_ascii """	: matchKey
-,
-[	"""",
-    // trailing space 
-    ""{,}"" ,
-    10 , """ ++ [128512]%N ++ runes_of_ascii """
-// a // b
-// packet A { u8 x, }
-, ""a	b"", 0
-,
-""1"",65535
-]: len , ""\" ++ [233]%N ++ runes_of_ascii """ :
-    T
-, [ ""CRC32"" ,
-    // " ++ [128512]%N ++ runes_of_ascii " emoji
-    1 , ""// no comment""
-, 007,1 ,	""`tick`"", """ ++ [128512]%N ++ runes_of_ascii """
-]// packet A { u8 x, }
-: a1  },match
-x as
-As
-{
-    ""a	b"":	o , 007
-:MetaDataX  ,  [
-""a	b""
-]:
-falsey , ""// no comment""
-    : Z9_""packet"":
-    _x
-    // " ++ [128512]%N ++ runes_of_ascii " emoji
-    , },repeat rootA {	uint8 MetaDataX
-    @calculatedFrom(
-    ""abc""
-    ) ,
-    match // `tick` ""quote"" 'q'
-int as// a // b
-asx {	[10	,
-10 , ""`tick`""  , 00 , 4294967296 ]
-    :
-    o ,
-    ""CRC32"" :
-string_ , [ 0
-]
-:	roots 65535 :
-// " ++ [27880; 37322]%N ++ runes_of_ascii "
-// trailing space 
-_x //
-, ""it's"" : Pad, 4294967296 : Pad , }
-,	u16	chars
-`line1
-line2`
-, //x
-}
-    ,
-}")).
-Eval vm_compute in ("<<<M376>>>" ++ check (runes_of_ascii "options {
-	StringPrefixLenType = u16;
-	ArrayPrefixLenType = u16;
-}
+{	repeat x
 
-packet SampleBinary {
-    uint16 MsgType `" ++ [28040; 24687; 31867; 22411]%N ++ runes_of_ascii "`,
-    u16 BodyLenght @lengthOf(Body) `" ++ [28040; 24687; 20307; 38271; 24230]%N ++ runes_of_ascii "`,
-    match MsgType as Body {
-        1 : Logon,
-        2 : Logout,
-        3 : Heartbeat,
-        4 : RiskControlRequest,
-        5 : RiskControlResponse,
-    },
-        @calculatedFrom(""CRC32"")
-    u32 Ckecksum `" ++ [26657; 39564; 21644]%N ++ runes_of_ascii "`,
-}
-
-packet Logon {
-     @leftPad('0')
-    char[10] UserName `" ++ [29992; 25143; 21517]%N ++ runes_of_ascii "`,
-    string Password `" ++ [23494; 30721]%N ++ runes_of_ascii "`,
-    uint64 ClientId `" ++ [23458; 25143; 31471]%N ++ runes_of_ascii "ID`,
-    u16 HeartbeatInterval `" ++ [24515; 36339; 38388; 38548]%N ++ runes_of_ascii "`,
-}
-
-packet Logout {
-      @rightPad('0')
-    char[10] UserName `" ++ [29992; 25143; 21517]%N ++ runes_of_ascii "`,
-    uint64 ClientId `" ++ [23458; 25143; 31471]%N ++ runes_of_ascii "ID`,
-}
-
-packet Heartbeat {
-}
-
-packet RiskControlRequest {
-    string UniqueOrderId `" ++ [21807; 19968; 35746; 21333; 21495]%N ++ runes_of_ascii "`,
-    char[16] ClOrdID `" ++ [23458; 25143; 35746; 21333; 21495]%N ++ runes_of_ascii "`,
-    char[3] MarketID `" ++ [24066; 22330]%N ++ runes_of_ascii "id`,
-    char[12] SecurityID `" ++ [35777; 21048; 20195; 30721]%N ++ runes_of_ascii "`,
-    char Side `" ++ [20080; 21334; 26041; 21521]%N ++ runes_of_ascii "`,
-    char OrderType `" ++ [35746; 21333; 31867; 22411]%N ++ runes_of_ascii "`,
-    u64 Price `" ++ [20215; 26684]%N ++ runes_of_ascii "`,
-    u32 Qty `" ++ [25968; 37327]%N ++ runes_of_ascii "`,
-    repeat string ExtraInfo `" ++ [38468; 21152; 20449; 24687]%N ++ runes_of_ascii "`,
-    repeat SubOrder {
-    		char[16] ClOrdID `" ++ [23376; 35746; 21333; 21495]%N ++ runes_of_ascii "`,
-    		u64 Price `" ++ [23376; 35746; 21333; 20215; 26684]%N ++ runes_of_ascii "`,
-    		u32 Qty `" ++ [23376; 35746; 21333; 25968; 37327]%N ++ runes_of_ascii "`,
-    	},
-}
-
-packet RiskControlResponse {
-    string UniqueOrderId `" ++ [21807; 19968; 35746; 21333; 21495]%N ++ runes_of_ascii "`,
-    i32 Status `" ++ [29366; 24577]%N ++ runes_of_ascii "`,
-    string Msg `" ++ [32467; 26524; 20449; 24687]%N ++ runes_of_ascii "`,
-    repeat Detail,
-}
-
-packet Detail {
-    string RuleName `" ++ [35268; 21017; 21517; 31216]%N ++ runes_of_ascii "`,
-    u16 Code `" ++ [21407; 22240; 20195; 30721]%N ++ runes_of_ascii "`,
-}")).
-Eval vm_compute in ("<<<M125>>>" ++ check (runes_of_ascii "options {
-// a // b
-// trailing space 
-Pad
-    =
-// " ++ [128512]%N ++ runes_of_ascii " emoji
-// " ++ [128512]%N ++ runes_of_ascii " emoji
-false Logon = uint32 ; // " ++ [128512]%N ++ runes_of_ascii " emoji
-x_y_z =
-    1 }
-    MetaData
-// `tick` ""quote"" 'q'
-//	t
-_x
-    {
-    uint32
-stringy ,
-zchar[ 42
-    ] A,
-} packet A {
-    match As as string_/// triple
-{ 0 :
-/// triple
-// `tick` ""quote"" 'q'
-Z9_ ,}
-,  @lengthOf(
-    Z9_ )@lengthOf( x_y_z )As
-    @lengthOf( As )
-`doc` ,
-u64 calculatedFrom	@calculatedFrom(
-""abc"")
-`// not a comment` , // c
-Packet //	t
-string_ ,
-    // trailing space 
-    @lengthOf(  Z9_
-    ) Z9_ @lengthOf( body)// trailing space 
-,
-calculatedFrom
-BodyLength , @lengthOf( msg_type
-)repeat
-char tag `it's` ,
-}
-    packet zchar { @leftPad (
-//x
-//
-)
-    repeat zchar[ 3 ]Z9_
-, } // `tick` ""quote"" 'q'
-packet chars { @lengthOf( Z9_ ) repeat string crc , string MetaDataX ,@calculatedFrom( """"
-    )
-x
-    ,
-u8x//
-, @tag(10 ) match
-    falsey as	tag {""CRC32""	: x
-    , /// triple
-} //	t
-,
-x_y_z`tab	here`
-,
-@rightPad(
-'0'
-)int16
-Logon
-    ,trueish
-, @rightPad
-( )
-_x @calculatedFrom(
-""packet""// c
-), } // @lengthOf(")).
-Eval vm_compute in ("<<<M261>>>" ++ check (runes_of_ascii "root packet pack { match MetaDataX as Packet { 7: trueish , /// triple
-""" ++ [233]%N ++ runes_of_ascii "t" ++ [233]%N ++ runes_of_ascii """: MetaDataX
-,4294967296
-:msg_type  65535 : metadata ,3: x_y_z 42 :
-//
-/// triple
-_x// trailing space 
-,}	, } packet x_y_z
-    {repeat crc	metadata,match A as u8x  { [""it's"" ,""\" ++ [233]%N ++ runes_of_ascii """ ,
-0123456789  , ""1"" ,""abc""
-,""// no comment"", 4294967296 ]
-: pack ,007 : tag , } , } packet
-// c
-//x
-repeatCount  { @lengthOf(stringy )
-uint8 f32a , }options
-{
-BodyLength
-    =  '\x00' ; body
-    = ' ' ; } packet
-    charz { repeat Z9_ rootA `two words` , //
-@calculatedFrom( ""a\\""  ) f32a @lengthOf( msg_type
-    )	`say ""hi""` ,int8 As , string	stringy
-@lengthOf(options1 )
-`crlf
-line`,	i8 i8i8
-, f32a options1,
-@leftPad(
-    '\x00' )
-u
-    @calculatedFrom( """ ++ [128512]%N ++ runes_of_ascii """
-) ,
-@calculatedFrom(
-""\" ++ [233]%N ++ runes_of_ascii """ ) @tag(  00 ) @tag(
-0)
-int64 trueish@calculatedFrom(""`tick`"" // trailing space 
-)
-, @leftPad (
-' ' )
-    zchar@lengthOf( Z9_ )
-,} // " ++ [27880; 37322]%N)).
-Eval vm_compute in ("<<<M264>>>" ++ check (runes_of_ascii "
-root packet u128 { @calculatedFrom( ""// no comment"" ) @tag(	10//	t
-) @calculatedFrom( ""packet"" ) BodyLength ``
-    , char BodyLength `two words`	, repeat uint32 f32a // trailing space 
-, crc {	repeat
-repeatCount Packet , MetaDataX@lengthOf(
-    chars
-),
-options1 _x ,
-repeat float64 T//x
-,} ,@tag( 3 )
-    @leftPad
-( '\x00') @rightPad
-(
-// @lengthOf(
-/// triple
-)
-    match string_ as MetaDataX { ""packet"" : float ,[
-    ""abc"" // @lengthOf(
-, """"
-    // packet A { u8 x, }
-    ,	3
-,
-    //x
-    65535 ,
-    ""a	b""
-,//	t
-42
-    ,
-    1 ,
-    ""packet"" ]:
-i64_
-// `tick` ""quote"" 'q'
-/// triple
-,
-// " ++ [27880; 37322]%N ++ runes_of_ascii "
-// trailing space 
-7 :lengthOf 0:
-len
-// trailing space 
-// packet A { u8 x, }
-,
-10 :  len , [ //	t
-0
-] : A
-    //	t
-    , }, }")).
-Eval vm_compute in ("<<<M325>>>" ++ check (runes_of_ascii "
-root// packet A { u8 x, }
-packet As
-// c
-// packet A { u8 x, }
-{}	packet charz {metadata @calculatedFrom(
-""{,}"" )
-,repeat
-zchar[	007
-] T
-`tab	here`, repeat tag
-{
-int8 crc `two words` , repeat o// @lengthOf(
-{ repeat
-// " ++ [128512]%N ++ runes_of_ascii " emoji
-// trailing space 
-f32a,
-} , repeat i16 Z9_ `say ""hi""` , zchar[ // @lengthOf(
-3] body @lengthOf( Packet )
-,} , @lengthOf(
-    o ) match uint8x as As
-    {
-255	:
-T ,	},
-f32a
-    @lengthOf( leftPad )
-    // `tick` ""quote"" 'q'
-    ,BodyLength _x `u8 x,` ,
-} packet BodyLength
-{ }
-packet
+    {  trueish	calculatedFrom  , match
 leftPad
-{ @leftPad(
-// " ++ [128512]%N ++ runes_of_ascii " emoji
+as
+
+    _x  {1:
+    i64_ , 
+""" ++ [28040; 24687]%N ++ runes_of_ascii """
+:
+options1 
+
+    // c
+    } ,repeat  char[]uint8x
+	,
+    A 
+{ repeat	metadata
+roots `a\` 
+,	//
+  char[
+    10
+]
+	x_y_z
+@calculatedFrom( ""\" ++ [233]%N ++ runes_of_ascii """  )`tab	here`, leftPad
+
+    , float32
+	f32a @calculatedFrom(
+	""" ++ [233]%N ++ runes_of_ascii "t" ++ [233]%N ++ runes_of_ascii """)
+
+`{ , }`
+
+,
+    }  // `tick` ""quote"" 'q'
+    	,
+}, 
+	// trailing space 
+
+	// c
+
+} ")).
+Eval vm_compute in ("<<<M146>>>" ++ check (runes_of_ascii "packet u8x{ float32
+roots `u8 x,`
+,  repeat float32 crc
+    `" ++ [28040; 24687; 31867; 22411]%N ++ runes_of_ascii "`
+    ,u32
+pack
+// 50% %s
+// " ++ [27880; 37322]%N ++ runes_of_ascii "
+@lengthOf(f32a ) `100% of %d`,// " ++ [128512]%N ++ runes_of_ascii " emoji
+match u128
+as _x
+// trailing space 
 // packet A { u8 x, }
-' ') repeat zchar[ 10
-]	_x ,}
-    options{ int =65535 ;
+{[ 65535 ]
+:MetaDataX ,//x
+}
+, }packet x_y_z {	@rightPad
+( '\x00' )i64
+    /// triple
+    roots, @calculatedFrom(
+// " ++ [27880; 37322]%N ++ runes_of_ascii "
+//
+""packet"" ) match o as
+    trueish	{	[ 1
+    ,
+0123456789
+] :  u8x	,
+    //	t
+    } , }
+")).
+Eval vm_compute in ("<<<M212>>>" ++ check (runes_of_ascii "packet
+    // " ++ [27880; 37322]%N ++ runes_of_ascii "
+    string_
+    // " ++ [128512]%N ++ runes_of_ascii " emoji
+    { f32 string_
+    @calculatedFrom(
+""" ++ [128512]%N ++ runes_of_ascii """),} packet int { }
+root packet
+    // trailing space 
+    Header	{repeat
+lengthOf {
+    repeat int
+{body Foo ,	}
+    // trailing space 
+    ,
+match i8i8	as
+Pad { [ 10 ]
+    : options1
+, ""abc"" :u8x
+, """ ++ [128512]%N ++ runes_of_ascii """ // 50% %s
+: f32a// 50% %s
+00  :  metadata , },
+// a // b
+// " ++ [128512]%N ++ runes_of_ascii " emoji
+lengthOf BodyLength ,
+},
     }
 ")).
-Eval vm_compute in ("<<<M1801>>>" ++ check (runes_of_ascii "
-packet
+Eval vm_compute in ("<<<M4351>>>" ++ check (runes_of_ascii "options {
+    uint8x = '\x00';
+    a1 = zchar[4294967296];
+    Packet = 007;
+}
 
-    a1 
-        /// triple
-    	{
-uint8
-    As
+MetaData rootA {
+    roots repeatCount `two words`,
+    string f32a `u8 x,`,
+    char[0] rootA `doc`,
+    o stringy `tab	here`,
+}
 
-, // `tick` ""quote"" 'q'
-
-char[
-1  ]
-chars @lengthOf(
-    msg_type) ,
-repeat
-    char[
-1  ]
-x_y_z
-
-`two words` 
-
-//x
-
-	, // c
-@tag(
-00 )
-int32 i8i8	,u64 trueish,
-    // @lengthOf(
-  @lengthOf(
-
-body
-
-) 
-int16
-
-    float  @lengthOf(
-    tag
-) ,  // " ++ [128512]%N ++ runes_of_ascii " emoji
-  	x	// trailing space 
-
-@calculatedFrom(
-	""`tick`"" ),  }
-MetaData
-
-x_y_z{
-	char[
-    10 ]chars,
-
-    Z9_
-	pack `
-`,string
-As,	//x
-		len
-
-int,  A
-
-Z9_
+MetaData u128 {
+    int16 asx `a\`,// " ++ [27880; 37322]%N ++ runes_of_ascii "
+    string f32a,
+    // " ++ [27880; 37322]%N ++ runes_of_ascii "
+    // 50% %s
+    i16 o `line1
+        line2`,
+    u64 Z9_ `u8 x,`,
+    //x
+    // 50% %s
+}")).
+Eval vm_compute in ("<<<M724>>>" ++ check (runes_of_ascii "// a // b
+packet o { match rootA as
+    matchKey {"""" ://
+body ,
+0 :
+    i8i8 // trailing space 
+65535 : x_y_z , [""" ++ [233]%N ++ runes_of_ascii "t" ++ [233]%N ++ runes_of_ascii """
+, 00
+] // packet A { u8 x, }
+:charz ,//
+}, /// triple
+zchar[ 10  ] calculatedFrom
+    `
+`
+,
+@tag(	00 ) @calculatedFrom( ""\" ++ [233]%N ++ runes_of_ascii """ ) i16 stringy,}MetaData
+    //
+    string_ { uint8 u8x , u u8x
     ,
-	} options
-{
-o
+    string
+    /// triple
+    body ,	}
+")).
+Eval vm_compute in ("<<<M608>>>" ++ check (runes_of_ascii "packet  i8i8{ char[ 0 ]// " ++ [27880; 37322]%N ++ runes_of_ascii "
+rootA
+,	@calculatedFrom(// `tick` ""quote"" 'q'
+""a\""b"") @tag(  10 ) @lengthOf(  msg_type /// triple
+) A
+`u8 x,`, int64 // packet A { u8 x, }
+asx @calculatedFrom(
+    ""\" ++ [233]%N ++ runes_of_ascii """ ) ,
+    asx @calculatedFrom(	""a\\"" ), } options {
+MetaDataX
 =
-	0123456789
+    i16	; //	t
+Logon =
+    zchar[10 ] Foo = ""1"" ; string_=
+    '0'
+    }
+")).
+Eval vm_compute in ("<<<M1292>>>" ++ check (runes_of_ascii "packet MetaDataX {
+    @tag(	10
+) // " ++ [128512]%N ++ runes_of_ascii " emoji
+@leftPad(
+    ) string lengthOf // `tick` ""quote"" 'q'
+@calculatedFrom(""packet"" )
+, string
+metadata`line1
+line2` , @lengthOf( options1  ) _x { zchar[//
+10 ]u128
+// @lengthOf(
+// @lengthOf(
+`crlf
+line` , } , a1 body , char[
+007]MetaDataX
+@calculatedFrom( ""it's"")
+    //	t
+    , }")).
+Eval vm_compute in ("<<<M352>>>" ++ check (runes_of_ascii "root packet
+len
+{ // " ++ [27880; 37322]%N ++ runes_of_ascii "
+@lengthOf( falsey ) @calculatedFrom( """ ++ [128512]%N ++ runes_of_ascii """
+)	@tag(10 )
+int32//	t
+pack `// not a comment` , repeat char[]
+crc, match u8x as
+    asx
+{ // c
+7 :int// trailing space 
+,	3 : repeatCount 10
+: /// triple
+a1 ,
+""CRC32"" :msg_type} ,}
+MetaData int {char[ 255
+    ] metadata
+    `100% of %d` , }")).
+Eval vm_compute in ("<<<M274>>>" ++ check (runes_of_ascii "packet falsey { @calculatedFrom( ""\n"" ) pack T `
+`, @rightPad /// triple
+(
+)char[] string_
+/// triple
+// " ++ [128512]%N ++ runes_of_ascii " emoji
+,
+    //
+    } MetaData	string_ { u16 trueish
+,
+    float x_y_z `u8 x,` ,
+zchar[ 65535 ]	float ,
+lengthOf repeatCount`tab	here` ,
+    metadata // trailing space 
+chars`say ""hi""` , }
+")).
+Eval vm_compute in ("<<<M435>>>" ++ check (runes_of_ascii "root packet	u8x{ pack @calculatedFrom( ""it's"" )
+, }
+options	{
+    } packet// a // b
+trueish { repeat f32
+charz
+,
+//x
+// " ++ [128512]%N ++ runes_of_ascii " emoji
+@rightPad // packet A { u8 x, }
+(  '\x00' )A { uint8x@lengthOf( lengthOf ) , } ,int{ uint8
+falsey	, } ,
+@lengthOf( Z9_
+) repeat	uint8 u
+    , }
+// 50% %s
+")).
+Eval vm_compute in ("<<<M589>>>" ++ check (runes_of_ascii "packet
+_x  { char Packet ,
+// `tick` ""quote"" 'q'
+// a // b
+}
+MetaData string_
+{ char[] string_ , string T , char u
+, metadata stringy
+    , zchar[ 42 ]u8x
+    , } MetaData
+calculatedFrom {
+}
+MetaData pack { i16 u128 `{ , }`	, float64 metadata `a\`,
+}	options {
+    } 	 ")).
+Eval vm_compute in ("<<<M1684>>>" ++ check (runes_of_ascii "// 50% %s
+packet	a1
+    { zchar[
+// a // b
+// 50% %s
+007]
+T `it's`
+    ,@rightPad
+    // a // b
+    (
+'\x00')
+    o repeatCount , }  packet Logon {  }packet	Logon //x
+{ repeat // " ++ [128512]%N ++ runes_of_ascii " emoji
+uint16 u128
+    //
+    `a\`,
+falsey
+@calculatedFrom(""packet"" ) options
+    } 	 ")).
+Eval vm_compute in ("<<<M1557>>>" ++ check (runes_of_ascii "// 50% %s
+packet	a1
+    { zchar[
+// a // b
+// 50% %s
+007]
+T `it's`
+    , ,@rightPad
+    // a // b
+    (
+'\x00')
+    o repeatCount , }  packet Logon {  }packet	Logon //x
+{ repeat // " ++ [128512]%N ++ runes_of_ascii " emoji
+uint16 u128
+    //
+    `a\`,
+falsey
+@calculatedFrom(""packet"" ) ,
+    } 	 ")).
+Eval vm_compute in ("<<<M1709>>>" ++ check (runes_of_ascii "// 50% %s
+packet	a1
+    { zchar[
+// a // b
+// 50% %s
+007]
+T `it's`
+    ,@rightPad
+    // a // b
+    (
+'\x00')
+    x" ++ [178]%N ++ runes_of_ascii " repeatCount , }  packet Logon {  }packet	Logon //x
+{ repeat // " ++ [128512]%N ++ runes_of_ascii " emoji
+uint16 u128
+    //
+    `a\`,
+falsey
+@calculatedFrom(""packet"" ) ,
+    } 	 ")).
+Eval vm_compute in ("<<<M1668>>>" ++ check (runes_of_ascii "// 50% %s
+packet	a1
+    { zchar[
+// a // b
+// 50% %s
+007]
+T `it's`
+    ,@rightPad
+    // a // b
+    (
+'\x00')
+    o repeatCount , }  packet Logon {  }packet	Logon //x
+{ repeat // " ++ [128512]%N ++ runes_of_ascii " emoji
+uint16 u128
+    //
+    `a\`,
+falsey
+""packet""@calculatedFrom( ) ,
+    } 	 ")).
+Eval vm_compute in ("<<<M1536>>>" ++ check (runes_of_ascii "// 50% %s
+packet	a1
+    { zchar[
+// a // b
+// 50% %s
+]
+T `it's`
+    ,@rightPad
+    // a // b
+    (
+'\x00')
+    o repeatCount , }  packet Logon {  }packet	Logon //x
+{ repeat // " ++ [128512]%N ++ runes_of_ascii " emoji
+uint16 u128
+    //
+    `a\`,
+falsey
+@calculatedFrom(""packet"" ) ,
+    } 	 ")).
+Eval vm_compute in ("<<<M1641>>>" ++ check (runes_of_ascii "// 50% %s
+packet	a1
+    { zchar[
+// a // b
+// 50% %s
+007]
+T `it's`
+    ,@rightPad
+    // a // b
+    (
+'\x00')
+    o repeatCount , }  packet Logon {  }packet	Logon //x
+{ repeat // " ++ [128512]%N ++ runes_of_ascii " emoji
+ u128
+    //
+    `a\`,
+falsey
+@calculatedFrom(""packet"" ) ,
+    } 	 ")).
+Eval vm_compute in ("<<<M1122>>>" ++ check (runes_of_ascii "// `tick` ""quote"" 'q'
+packet
+    x {
+    @calculatedFrom(
+""\n"") repeat calculatedFrom _x
+    // a // b
+    `{ , }`, char[]	u128
+    ,
+stringy @calculatedFrom(
+"""" ) , @lengthOf(x_y_z  )
+    @tag( 42)
+    @rightPad ( '0'
+    ) char[]
+    trueish , }
+")).
+Eval vm_compute in ("<<<M4245>>>" ++ check (runes_of_ascii "packet zchar {
+    Logon a1,
+    u128 `
+        `,
+    @lengthOf(charz)
+    i64 u8x @lengthOf(msg_type) `// not a comment`,
+    repeat roots a1,
+    asx msg_type `crlf
+        line`,
+    @tag(42)
+    /// triple
+    u64 metadata `{ , }`,
+}")).
+Eval vm_compute in ("<<<M249>>>" ++ check (runes_of_ascii "
+MetaData	f32a { uint8x  zchar`" ++ [28040; 24687; 31867; 22411]%N ++ runes_of_ascii "` ,i32 Logon
+    , }
+options{
+    repeatCount= ""\n""; trueish=
+    zchar[ 4294967296 ]
+    ; }
+    // c
+    MetaData body { char[] T
+, x_y_z
+    Packet `crlf
+line` , uint32 matchKey ,
+x tag ,}")).
+Eval vm_compute in ("<<<M381>>>" ++ check (runes_of_ascii "root packet
+rootA {} packet u128 {@calculatedFrom(""\" ++ [233]%N ++ runes_of_ascii """ ) falsey@calculatedFrom( ""a\\"" ) ,
+@lengthOf(// trailing space 
+pack )repeat float64 packetx , @calculatedFrom(""packet"" ) charz
+    , uint8 leftPad `crlf
+line` ,
+}")).
+Eval vm_compute in ("<<<M115>>>" ++ check (runes_of_ascii "MetaData tag{
+} MetaData tag
+    { options1 metadata// " ++ [128512]%N ++ runes_of_ascii " emoji
+,
+}
+    root packet Header { @lengthOf( body
+) len
+msg_type
+    , repeat	string
+    //x
+    int
+`{ , }`, u8
+    rootA @lengthOf(
+Z9_ )  `" ++ [233]%N ++ runes_of_ascii "` , }
+")).
+Eval vm_compute in ("<<<M4333>>>" ++ check (runes_of_ascii "
+// packet A { u8 x, }
+  MetaData
+
+repeatCount{ 	 // @lengthOf(
+    Z9_ int
+`a\`
+	,  }
+options  { Pad
+=  ' '  ;/// triple
+A
+	=
+
+""\" ++ [233]%N ++ runes_of_ascii """
 
     ;
-_x
-    = ' '
-; }
+
+    As	= uint64
+;	//	t
+	}	root 
+packet
+
+    f32a{}
 ")).
-Eval vm_compute in ("<<<M152>>>" ++ check (runes_of_ascii "
-options{	roots ='\x00' lengthOf
-=
-    true
-; Packet = // `tick` ""quote"" 'q'
-""packet"" ; o = // packet A { u8 x, }
-""packet"" ; A// " ++ [27880; 37322]%N ++ runes_of_ascii "
-=
-    //
-    true ; // trailing space 
-} packet body
-{ _x ,	zchar[
-65535
-]
-Header @calculatedFrom( // trailing space 
-""""  ) `u8 x,` , }
+Eval vm_compute in ("<<<M3365>>>" ++ check (runes_of_ascii "// top
+packet
+    // c0
+Inner // c1
+{ // c2
+u8 // c3
+a
+    // c4
+,
+    // c5
+} // c6a
+  // c6b
 root packet
-    //	t
-    T // trailing space 
-{ @tag(// trailing space 
-7) @tag( 0
-    )
-@leftPad( '0' )// a // b
-int64
-x @lengthOf( Packet )
-    , msg_type stringy
-`" ++ [28040; 24687; 31867; 22411]%N ++ runes_of_ascii "`/// triple
-, } /// triple")).
-Eval vm_compute in ("<<<M218>>>" ++ check (runes_of_ascii "packet lengthOf {
-f64 lengthOf
-@lengthOf(a1
-)
-`" ++ [28040; 24687; 31867; 22411]%N ++ runes_of_ascii "`
-, uint64 Logon `" ++ [233]%N ++ runes_of_ascii "`
-,	string Pad@calculatedFrom( ""\n"" )
-/// triple
-// trailing space 
-,zchar[ 0123456789
-    ] Foo @lengthOf( charz )	`// not a comment` ,
-@rightPad ()match falsey
-    as Packet{ """"
-    :
-u ,
-65535 :
-float ,[  4294967296
-] :	trueish // trailing space 
-,	[10 ,0123456789 ]  :
-Logon , 1 : roots [  7 ,
-""\" ++ [233]%N ++ runes_of_ascii """ , 00
-    //
-    ]:
-float , } ,}
+    // c8
+P {
+    // c10
+repeat
+    // c11
+Inner items , u8
+    // c15
+x // c16
+, } ")).
+Eval vm_compute in ("<<<M1125>>>" ++ check (runes_of_ascii "MetaData As {/// triple
+zchar[ 7 // trailing space 
+] As	``, }MetaData
+float{ } packet calculatedFrom{
+    a1
+string_// c
+, zchar[3 ]  f32a @calculatedFrom(
+""abc"")`100% of %d`
+,}")).
+Eval vm_compute in ("<<<M1354>>>" ++ check (runes_of_ascii "options { //x
+u
+= u8 ;} MetaData u
+{ }// packet A { u8 x, }
+packet u
+    { @lengthOf(leftPad
+) @calculatedFrom( """ ++ [28040; 24687]%N ++ runes_of_ascii """ ) i64 int @calculatedFrom(""\n""
+) , uint8x body	, }
 ")).
-Eval vm_compute in ("<<<M230>>>" ++ check (runes_of_ascii "packet x { lengthOf rootA , @rightPad
-( '0' )
-i8 asx @lengthOf( calculatedFrom // a // b
-),
-@lengthOf( Pad ) repeat //x
-int16 trueish // c
-``// " ++ [27880; 37322]%N ++ runes_of_ascii "
-, @calculatedFrom(
-""" ++ [128512]%N ++ runes_of_ascii """) @tag(0
-)
-@lengthOf( // a // b
-matchKey ) string MetaDataX`doc`
-,
-i16 // `tick` ""quote"" 'q'
-options1 @lengthOf(
-    // " ++ [27880; 37322]%N ++ runes_of_ascii "
-    u8x
-    // " ++ [128512]%N ++ runes_of_ascii " emoji
-    ) `a\` ,
-    u128
-u128`line1
-line2`,}")).
-Eval vm_compute in ("<<<M65>>>" ++ check (runes_of_ascii "  options	{ string_
-=true; } options
-{ T
-= false}
-packet
-u8x { @lengthOf( int
-    //
-    )
-zchar[ 255 ] BodyLength , } // trailing space 
-root
-packet
-    f32a  { }packet roots
-{ Foo
-    , repeat char[ 007 ] Pad
-,repeat  int8
-packetx
-    ,
-    match Z9_ as T	{
-00 :A , ""a\""b"" :
-    falsey  , //
-""CRC32""
-:a1
-,
-    }	, }
+Eval vm_compute in ("<<<M690>>>" ++ check (runes_of_ascii "packet packetx {zchar[
+// a // b
+//	t
+10
+]options1 , } // " ++ [128512]%N ++ runes_of_ascii " emoji
+options{ // a // b
+a1=//
+char[ 0123456789 ]	; f32a=
+char[]} MetaData MetaDataX { zchar[65535 ]x,	}
 ")).
-Eval vm_compute in ("<<<M2057>>>" ++ check (runes_of_ascii "// packet A { u8 x, }
-options {
-    T = ""packet"";
-}
-
-MetaData x_y_z {
-    char roots,
-    T f32a `{ , }`,
-}
-
-root packet uint8x {
-    @calculatedFrom(""// no comment"")
-    repeat As {
-        rootA @calculatedFrom(""" ++ [28040; 24687]%N ++ runes_of_ascii """) `{ , }`,
-        u16 zchar `{ , }`,
-        char[7] o `" ++ [233]%N ++ runes_of_ascii "`,
-    },
-}")).
-Eval vm_compute in ("<<<M624>>>" ++ check (runes_of_ascii "root packet tag { }  packet MetaDataX{char[007	]
-// c
-/// triple
-asx  @calculatedFrom( ""a\""b""
-) `say ""hi""`// " ++ [27880; 37322]%N ++ runes_of_ascii "
-,  @tag(4294967296 )
-    char[1//x
-] packetx @calculatedFrom(""a\""b""
-    ) ,
-// " ++ [128512]%N ++ runes_of_ascii " emoji
+Eval vm_compute in ("<<<M1692>>>" ++ check (runes_of_ascii "// 50% %s
+packet	a1
+    { zchar[
 // a // b
-@calculatedFrom(""" ++ [233]%N ++ runes_of_ascii "t" ++ [233]%N ++ runes_of_ascii """ """ ++ [233]%N ++ runes_of_ascii "t" ++ [233]%N ++ runes_of_ascii """  ) repeat pack // " ++ [27880; 37322]%N ++ runes_of_ascii "
-,
-    } // c")).
-Eval vm_compute in ("<<<M589>>>" ++ check (runes_of_ascii "root packet tag { }  packet MetaDataX{char[007	]
-// c
-/// triple
-asx  @calculatedFrom( ""a\""b""
-) `say ""hi""`// " ++ [27880; 37322]%N ++ runes_of_ascii "
-,  @tag(4294967296 )
-    char[1//x
-] ] packetx @calculatedFrom(""a\""b""
-    ) ,
-// " ++ [128512]%N ++ runes_of_ascii " emoji
+// 50% %s
+007]
+T `it's`
+    ,@rightPad
+    // a // b
+    (
+'\x00')
+    o repeatCount , }  packet Logon {  }packet	")).
+Eval vm_compute in ("<<<M188>>>" ++ check (runes_of_ascii "MetaData
+Logon	{ chars
+metadata `u8 x,` , uint64 x_y_z, u32
+    Z9_ ,
+    // 50% %s
+    uint64
+// packet A { u8 x, }
 // a // b
-@calculatedFrom(""" ++ [233]%N ++ runes_of_ascii "t" ++ [233]%N ++ runes_of_ascii """  ) repeat pack // " ++ [27880; 37322]%N ++ runes_of_ascii "
-,
-    } // c")).
-Eval vm_compute in ("<<<M72>>>" ++ check (runes_of_ascii "MetaData len //	t
-{ f64 calculatedFrom , x_y_z	x
-,} packet repeatCount { @lengthOf(pack ) match
-x_y_z as o // " ++ [27880; 37322]%N ++ runes_of_ascii "
-{ 7:
-Header
-// `tick` ""quote"" 'q'
-// a // b
-} , } options { lengthOf  = true; }
-packet  leftPad
-    {
-    MetaDataX @lengthOf( T ) `two words` ,
-    }")).
-Eval vm_compute in ("<<<M640>>>" ++ check (runes_of_ascii "root packet tag { }  packet MetaDataX{char[007	]
-// c
-/// triple
-asx  @calculatedFrom( ""a\""b""
-) `say ""hi""`// " ++ [27880; 37322]%N ++ runes_of_ascii "
-,  @tag(4294967296 )
-    char[1//x
-] packetx @calculatedFrom(""a\""b""
-    ) ,
-// " ++ [128512]%N ++ runes_of_ascii " emoji
-// a // b
-@calculatedFrom(""" ++ [233]%N ++ runes_of_ascii "t" ++ [233]%N ++ runes_of_ascii """  ) repeat , // " ++ [27880; 37322]%N ++ runes_of_ascii "
 pack
-    } // c")).
-Eval vm_compute in ("<<<M533>>>" ++ check (runes_of_ascii "root packet tag { }  packet MetaDataX{char[007	]
-// c
-/// triple
-  @calculatedFrom( ""a\""b""
-) `say ""hi""`// " ++ [27880; 37322]%N ++ runes_of_ascii "
-,  @tag(4294967296 )
-    char[1//x
-] packetx @calculatedFrom(""a\""b""
-    ) ,
-// " ++ [128512]%N ++ runes_of_ascii " emoji
-// a // b
-@calculatedFrom(""" ++ [233]%N ++ runes_of_ascii "t" ++ [233]%N ++ runes_of_ascii """  ) repeat pack // " ++ [27880; 37322]%N ++ runes_of_ascii "
+, body asx
 ,
-    } // c")).
-Eval vm_compute in ("<<<M2063>>>" ++ check (runes_of_ascii "options {
+    }")).
+Eval vm_compute in ("<<<M2106>>>" ++ check (runes_of_ascii "MetaData BodyLength
+{ int8 Foo
+, string
+    MetaDataX , float zchar ,pack pack options1
+,asx string_, }
+packet u8x {Foo@lengthOf(charz )
+`" ++ [28040; 24687; 31867; 22411]%N ++ runes_of_ascii "`,  }
+")).
+Eval vm_compute in ("<<<M2136>>>" ++ check (runes_of_ascii "MetaData BodyLength
+{ int8 Foo
+, string
+    MetaDataX , float zchar ,pack options1
+,asx string_, } }
+packet u8x {Foo@lengthOf(charz )
+`" ++ [28040; 24687; 31867; 22411]%N ++ runes_of_ascii "`,  }
+")).
+Eval vm_compute in ("<<<M2206>>>" ++ check (runes_of_ascii "MetaData BodyLength
+{ int8 Foo
+, string
+    MetaDataX , float zchar ,pack options1
+,asx string_, }
+packet u8x {Foo@lengthOf" ++ [233]%N ++ runes_of_ascii "(charz )
+`" ++ [28040; 24687; 31867; 22411]%N ++ runes_of_ascii "`,  }
+")).
+Eval vm_compute in ("<<<M2152>>>" ++ check (runes_of_ascii "MetaData BodyLength
+{ int8 Foo
+, string
+    MetaDataX , float zchar ,pack options1
+,asx string_, }
+packet u8x Foo{@lengthOf(charz )
+`" ++ [28040; 24687; 31867; 22411]%N ++ runes_of_ascii "`,  }
+")).
+Eval vm_compute in ("<<<M2244>>>" ++ check (runes_of_ascii "options
+    {
+x_y_z// " ++ [27880; 37322]%N ++ runes_of_ascii "
+= 10 ; }
+packet packet body {
+    @calculatedFrom(
+// trailing space 
+// " ++ [27880; 37322]%N ++ runes_of_ascii "
+""1""
+)	match T as Foo
+    {
+255 :T , }
+,}")).
+Eval vm_compute in ("<<<M2145>>>" ++ check (runes_of_ascii "MetaData BodyLength
+{ int8 Foo
+, string
+    MetaDataX , float zchar ,pack options1
+,asx string_, }
+packet  {Foo@lengthOf(charz )
+`" ++ [28040; 24687; 31867; 22411]%N ++ runes_of_ascii "`,  }
+")).
+Eval vm_compute in ("<<<M17>>>" ++ check (runes_of_ascii "MetaData
+matchKey
+    { trueish Packet `// not a comment` , stringy calculatedFrom`tab	here`
+    //
+    , matchKey  o `doc` , } // 50% %s")).
+Eval vm_compute in ("<<<M2031>>>" ++ check (runes_of_ascii "
+packet leftPad {
+@leftPad( '0')
+u32
+i64_ `100% of %d` ,repeat// 50% %s
+i8 chars
+    ,
+} $ MetaData
+    f32a
+{ // packet A { u8 x, }
+}")).
+Eval vm_compute in ("<<<M2032>>>" ++ check (runes_of_ascii "
+packet leftPad {
+@leftPad( '0')
+u32
+i64_ `1?00% of %d` ,repeat// 50% %s
+i8 chars
+    ,
+} MetaData
+    f32a
+{ // packet A { u8 x, }
+}")).
+Eval vm_compute in ("<<<M1954>>>" ++ check (runes_of_ascii "
+packet leftPad {
+@leftPad( i64)
+u32
+i64_ `100% of %d` ,repeat// 50% %s
+i8 chars
+    ,
+} MetaData
+    f32a
+{ // packet A { u8 x, }
+}")).
+Eval vm_compute in ("<<<M2270>>>" ++ check (runes_of_ascii "options
+    {
+x_y_z// " ++ [27880; 37322]%N ++ runes_of_ascii "
+= 10 ; }
+packet body {
+    @calculatedFrom(
+// trailing space 
+// " ++ [27880; 37322]%N ++ runes_of_ascii "
+""1""
+match	) T as Foo
+    {
+255 :T , }
+,}")).
+Eval vm_compute in ("<<<M2214>>>" ++ check (runes_of_ascii "options
+    
+x_y_z// " ++ [27880; 37322]%N ++ runes_of_ascii "
+= 10 ; }
+packet body {
+    @calculatedFrom(
+// trailing space 
+// " ++ [27880; 37322]%N ++ runes_of_ascii "
+""1""
+)	match T as Foo
+    {
+255 :T , }
+,}")).
+Eval vm_compute in ("<<<M3382>>>" ++ check (runes_of_ascii "options {
     LittleEndian = true;
 }
-
-packet Logon {
-    u8 x,
-    string user,
+packet B {
+    u8 a,
+    string s,
 }
-
-packet Logout {
-    u16 reason,
+root packet P {
+    u16 L @lengthOf(B),
+    B,
+    u8 t,
 }
-
-packet Empty {
+")).
+Eval vm_compute in ("<<<M2426>>>" ++ check (runes_of_ascii "MetaData
+    calculatedFrom
+{ zchar[  10 ]
+    As`tab	here`,
+    }// trailing space 
+options  { roots ='\x00' ; } packet " ++ [65279]%N ++ runes_of_ascii " A
+{ }
+")).
+Eval vm_compute in ("<<<M1893>>>" ++ check (runes_of_ascii "packet o {
+    roots `it's`
+// trailing space 
+//x
+, char[ 42
+    ]  A, // " ++ [27880; 37322]%N ++ runes_of_ascii "
+f64
+repeatCount
+    `crlf
+line` `crlf
+line`
+,}")).
+Eval vm_compute in ("<<<M394>>>" ++ check (runes_of_ascii "MetaData lengthOf {len a1 `a\`
+    , As
+    x_y_z
+`" ++ [28040; 24687; 31867; 22411]%N ++ runes_of_ascii "`,
+    metadata x, calculatedFrom string_ `doc`	,} // trailing space ")).
+Eval vm_compute in ("<<<M3370>>>" ++ check (runes_of_ascii "packet B {
+    u8 a,
 }
-
-root packet Frame {
-    u16 MsgType,
-    u16 BodyLen @lengthOf(Body),
-    u8 flags,
-    Logon Body,
-    u32 trailer,
-}")).
-Eval vm_compute in ("<<<M627>>>" ++ check (runes_of_ascii "root packet tag { }  packet MetaDataX{char[007	]
-// c
-/// triple
-asx  @calculatedFrom( ""a\""b""
-) `say ""hi""`// " ++ [27880; 37322]%N ++ runes_of_ascii "
-,  @tag(4294967296 )
-    char[1//x
-] packetx @calculatedFrom(""a\""b""
-    ) ,
-// " ++ [128512]%N ++ runes_of_ascii " emoji
-// a // b
-@calculatedFrom(")).
-Eval vm_compute in ("<<<M1521>>>" ++ check (runes_of_ascii "packet Logon {
-    string user,
-}
-root packet Frame {
+root packet P {
     u8 K,
+    u8 L @lengthOf(Body),
     match K as Body {
-        1 : Logon,
-        2 : Logout,
+        1 : B,
     },
-    Tail,
-}
-packet Logout {
-    u16 reason,
-}
-packet Tail {
-    u32 crc,
 }
 ")).
-Eval vm_compute in ("<<<M1121>>>" ++ check (runes_of_ascii "packet metadata // c1a
-  // c1b
-{ Logon // c3
-{ // c4
-A `" ++ [28040; 24687; 31867; 22411]%N ++ runes_of_ascii "`
-    // c6
-, // c7a
-  // c7b
-tag o , // c10a
-  // c10b
-} // c11a
-  // c11b
-, // c12
-zchar len // c14
-`// not a comment` , } ")).
-Eval vm_compute in ("<<<M712>>>" ++ check (runes_of_ascii "root packet len // trailing space 
+Eval vm_compute in ("<<<M1863>>>" ++ check (runes_of_ascii "packet o {
+    roots `it's`
+// trailing space 
+//x
+, char[ 42 42
+    ]  A, // " ++ [27880; 37322]%N ++ runes_of_ascii "
+f64
+repeatCount
+    `crlf
+line`
+,}")).
+Eval vm_compute in ("<<<M4024>>>" ++ check (runes_of_ascii "
+packet
+
+    A { match 
+k as n 
 {
-// " ++ [27880; 37322]%N ++ runes_of_ascii "
-//	t
-char[10
-] metadata	@lengthOf( o ) `crlf
-line`,
-    @rightPad
-( ' '
-) string
-    Header @calculatedFrom( ""a\\""
-    options, }
-")).
-Eval vm_compute in ("<<<M462>>>" ++ check (runes_of_ascii "packet
-    // `tick` ""quote"" 'q'
-    crc
-// packet A { u8 x, }
-//	t
-{
-u32 a1 ,
-    // trailing space 
-    roots
-charz //
-`two words`,	}
-    MetaData int ''{
-} /// triple")).
-Eval vm_compute in ("<<<M416>>>" ++ check (runes_of_ascii "packet
-    // `tick` ""quote"" 'q'
-    crc
-// packet A { u8 x, }
-//	t
-{
-u32 a1 ,
-    // trailing space 
-    charz
-roots //
-`two words`,	}
-    MetaData int {
-} /// triple")).
-Eval vm_compute in ("<<<M675>>>" ++ check (runes_of_ascii "root packet len // trailing space 
-{
-// " ++ [27880; 37322]%N ++ runes_of_ascii "
-//	t
-char[10
-] metadata	@lengthOf( o ) `crlf
-line`,
-    @rightPad
-( ' '
- string
-    Header @calculatedFrom( ""a\\""
-    ), }
-")).
-Eval vm_compute in ("<<<M250>>>" ++ check (runes_of_ascii "packet tag
-{@rightPad( )	zchar[ 00
-    //x
-    ] //x
-MetaDataX `" ++ [233]%N ++ runes_of_ascii "` ,
-    float32 Header `say ""hi""`
-// " ++ [128512]%N ++ runes_of_ascii " emoji
-// `tick` ""quote"" 'q'
-, } MetaData
-T{int lengthOf  ,}")).
-Eval vm_compute in ("<<<M304>>>" ++ check (runes_of_ascii "  packet
-    Packet { i8 MetaDataX , }
-    root packet
-    a1
-{ rootA @lengthOf( uint8x )
+
+    [ 1  ,
+
+""bb""
+,007
+,  ""d"" ,
+5
+, ""f""]
+
+:
+B 
+2
+    : 
+C
+}
+
     ,
-    repeatCount
-{
-char[]u , u16
-msg_type
-`a\` ,
-    }
-, }
-")).
-Eval vm_compute in ("<<<M587>>>" ++ check (runes_of_ascii "root packet tag { }  packet MetaDataX{char[007	]
-// c
-/// triple
-asx  @calculatedFrom( ""a\""b""
-) `say ""hi""`// " ++ [27880; 37322]%N ++ runes_of_ascii "
-,  @tag(4294967296 )
-    char[")).
-Eval vm_compute in ("<<<M1271>>>" ++ check (runes_of_ascii "// top
-packet // c0
-x // c1
-{ // c2
-@rightPad // c3
-( // c4
-) // c5
-repeat // c6
-roots // c7
-Logon // c8
-`doc` // c9
-, // c10
-} // c11
-")).
-Eval vm_compute in ("<<<M2071>>>" ++ check (runes_of_ascii "packet A {
-    match k as n {
-        [
-            1, 22, ""c c"", 4, 5,
-            ""f""
-        ] : B,
-        2 : C,
+	} ")).
+Eval vm_compute in ("<<<M1859>>>" ++ check (runes_of_ascii "packet o {
+    roots `it's`
+// trailing space 
+//x
+, 42 char[
+    ]  A, // " ++ [27880; 37322]%N ++ runes_of_ascii "
+f64
+repeatCount
+    `crlf
+line`
+,}")).
+Eval vm_compute in ("<<<M4198>>>" ++ check (runes_of_ascii "// a // b
+packet matchKey {
+    repeat Z9_ {
+        a1 @calculatedFrom(""" ++ [28040; 24687]%N ++ runes_of_ascii """),
     },
-}")).
-Eval vm_compute in ("<<<M1234>>>" ++ check (runes_of_ascii "root packet matchKey { zchar[ 3
-// c
-] pack @calculatedFrom( ""a	b"" ) `doc` , } options { } MetaData A { int8 msg_type , }")).
-Eval vm_compute in ("<<<M1266>>>" ++ check (runes_of_ascii "root packet matchKey { zchar[ 3 ] pack @calculatedFrom( ""a	b"" ) `doc` , } options { } MetaData A { int8 msg_type
-// c
-, }")).
-Eval vm_compute in ("<<<M962>>>" ++ check (runes_of_ascii "packet A {
-    match k as n {
-        ""x\
-y"" : B,
-        [""x\
-y"", 1] : C,
-        [1,2,3,4,5,""x\
-y""] : D,
-    },
-}")).
-Eval vm_compute in ("<<<M1756>>>" ++ check (runes_of_ascii "
-packet FooBar
-	{ u8
-	a  ,
+}
 
-    }  packet foo_bar{  u16 
-b 
-,	}root
-    packet
-    R	{FooBar ,	foo_bar
-,}
-
-")).
-Eval vm_compute in ("<<<M897>>>" ++ check (runes_of_ascii "packet A {
-  match k as n {
-    [""a"", ""bb"", 007, ""d"", ""e"", 66, ""g"", ""h"", 9, ""j"", ""k""] : B
-    2 : C
-  },
+root packet T {
+    //
 }")).
-Eval vm_compute in ("<<<M205>>>" ++ check (runes_of_ascii "  root packet// " ++ [128512]%N ++ runes_of_ascii " emoji
-o
+Eval vm_compute in ("<<<M1081>>>" ++ check (runes_of_ascii "MetaData Z9_ { } options	{ repeatCount  = '0'
+crc
+// " ++ [27880; 37322]%N ++ runes_of_ascii "
+// " ++ [27880; 37322]%N ++ runes_of_ascii "
+= 007
+; rootA
+=int8 ;_x	= 0 ;
+}packet falsey{ }")).
+Eval vm_compute in ("<<<M2287>>>" ++ check (runes_of_ascii "options
     {
-    @calculatedFrom( ""a\""b"" //x
-) repeat crc ,	@tag( 10  )
-x_y_z, }
+x_y_z// " ++ [27880; 37322]%N ++ runes_of_ascii "
+= 10 ; }
+packet body {
+    @calculatedFrom(
+// trailing space 
+// " ++ [27880; 37322]%N ++ runes_of_ascii "
+""1""
+)	match T")).
+Eval vm_compute in ("<<<M1470>>>" ++ check (runes_of_ascii "packet
+T
+{ match repeatCount as	calculatedFrom
+{ [65535 ]	""// no comment"" As	,
+} ,}
+// trailing space 
 ")).
-Eval vm_compute in ("<<<M894>>>" ++ check (runes_of_ascii "packet A {
+Eval vm_compute in ("<<<M1251>>>" ++ check (runes_of_ascii "options	{x_y_z	= u8 ;
+_x = 4294967296
+asx =0123456789;
+charz
+=false ; x_y_z =
+    // 50% %s
+    10}
+")).
+Eval vm_compute in ("<<<M2980>>>" ++ check (runes_of_ascii "packet A {
   match k as n {
-    [1, 22, ""c c"", 4, 5, ""f"", 7, 8, ""i"", 10, 11] : B,
+    [""a"", 22, ""c c"", 4, ""e"", 66, ""g"", 8, ""i"", 10] : B
     2 : C
   },
 }")).
-Eval vm_compute in ("<<<M172>>>" ++ check (runes_of_ascii "
-options
-    // " ++ [128512]%N ++ runes_of_ascii " emoji
-    {  roots= false ; f32a = ""// no comment""
-// " ++ [128512]%N ++ runes_of_ascii " emoji
-// a // b
-;
+Eval vm_compute in ("<<<M3616>>>" ++ check (runes_of_ascii "packet A {
+    B b `tab
+        	x`,
+    B `tab
+        	x`,
+    repeat B bs `tab
+        	x`,
+}")).
+Eval vm_compute in ("<<<M4073>>>" ++ check (runes_of_ascii "options{ x
+
+=string
+x_y_z	='\x00'	; falsey
+    =
+
+1;
+chars
+    = 
+true
+    ;Logon=""packet""
+} ")).
+Eval vm_compute in ("<<<M1453>>>" ++ check (runes_of_ascii "packet
+T
+{ match repeatCount as	calculatedFrom
+{ [ [65535 ]	: As	,
+} ,}
+// trailing space 
+")).
+Eval vm_compute in ("<<<M1511>>>" ++ check (runes_of_ascii "packet
+T
+{ match repeatCount as	calculatedFrom
+{ [65535 ]	: As	#,
+} ,}
+// trailing space 
+")).
+Eval vm_compute in ("<<<M1485>>>" ++ check (runes_of_ascii "packet
+T
+{ match repeatCount as	calculatedFrom
+{ [65535 ]	: As	,
+) ,}
+// trailing space 
+")).
+Eval vm_compute in ("<<<M2951>>>" ++ check (runes_of_ascii "packet A {
+  match k as n {
+    [1, ""bb"", 007, ""d"", 5, ""f"", 7, ""h""] : B,
+    2 : C
+  },
+}")).
+Eval vm_compute in ("<<<M2332>>>" ++ check (runes_of_ascii "options
+    {
+x_y_z// " ++ [27880; 37322]%N ++ runes_of_ascii "
+= 10 ; }
+packet body {
+    @calculatedFrom(
+// trailing space ")).
+Eval vm_compute in ("<<<M3647>>>" ++ check (runes_of_ascii "packet A {
+    repeat crc uint8x,
+    @calculatedFrom(""it's"")
+    uint64 Logon `a\`,
+}")).
+Eval vm_compute in ("<<<M1722>>>" ++ check (runes_of_ascii "options{  = lengthOf//x
+i16;
+    BodyLength = 0 ; pack
+= false;
+    A = char[ 3 ] }")).
+Eval vm_compute in ("<<<M1745>>>" ++ check (runes_of_ascii "options{  lengthOf =//x
+i16;
+    BodyLength  0 ; pack
+= false;
+    A = char[ 3 ] }")).
+Eval vm_compute in ("<<<M1187>>>" ++ check (runes_of_ascii "
+options{ MetaDataX
+= 4294967296 } MetaData
+    body{zchar[ 00
+]Logon , //	t
 }
 ")).
-Eval vm_compute in ("<<<M868>>>" ++ check (runes_of_ascii "packet A {
-  match k as n {
-    [1, 22, ""c c"", 4, 5, ""f"", 7, 8, ""i""] : B,
-    2 : C
-  },
-}")).
-Eval vm_compute in ("<<<M1193>>>" ++ check (runes_of_ascii "MetaData float { float64 charz `
-` ,
-// c
-} root packet chars { @rightPad ( '0' ) Foo , }")).
-Eval vm_compute in ("<<<M1404>>>" ++ check (runes_of_ascii "packet chars { } packet // c
-MetaDataX { @tag( 42 ) i16 string_ , repeat x `say ""hi""` , }")).
-Eval vm_compute in ("<<<M852>>>" ++ check (runes_of_ascii "packet A {
-  match k as n {
-    [1, ""bb"", 007, ""d"", 5, ""f"", 7, ""h""] : B
-    2 : C
-  },
-}")).
-Eval vm_compute in ("<<<M1134>>>" ++ check (runes_of_ascii "packet metadata { Logon { A // c
-`" ++ [28040; 24687; 31867; 22411]%N ++ runes_of_ascii "` , tag o , } , zchar len `// not a comment` , }")).
-Eval vm_compute in ("<<<M1338>>>" ++ check (runes_of_ascii "// c
-packet o { repeat Logon uint8x , } options { asx = zchar[ 3 ] stringy = '\x00' }")).
-Eval vm_compute in ("<<<M1371>>>" ++ check (runes_of_ascii "packet o { repeat Logon uint8x , } options { asx = zchar[ 3 ] stringy
-// c
-= '\x00' }")).
-Eval vm_compute in ("<<<M810>>>" ++ check (runes_of_ascii "packet A {
-  match k as n {
-    [""a"", ""bb"", ""c c"", ""d"", ""e""] : B,
-    2 : C
-  },
-}")).
-Eval vm_compute in ("<<<M1332>>>" ++ check (runes_of_ascii "MetaData body { i64 pack `it's` , } packet stringy { int16 calculatedFrom ,
-// c
-}")).
-Eval vm_compute in ("<<<M1900>>>" ++ check (runes_of_ascii "packet A {
+Eval vm_compute in ("<<<M613>>>" ++ check (runes_of_ascii "root //x
+packet  u{
+    /// triple
+    chars
+// trailing space 
+//x
+u128
+,
+}
+
+")).
+Eval vm_compute in ("<<<M3261>>>" ++ check (runes_of_ascii "MetaData Foo { zchar[ 0 ] matchKey , } // c
+options { lengthOf = i32 u = 00 ; }")).
+Eval vm_compute in ("<<<M4364>>>" ++ check (runes_of_ascii "packet A {
     match k as n {
-        [1, 22, 007] : B,
+        [""a"", ""bb""] : B,
         2 : C,
     },
 }")).
-Eval vm_compute in ("<<<M1673>>>" ++ check (runes_of_ascii "
-
-  packet A
-	{
-match
-    k
-    as 
-n  {  [""a"" ,22 ] : B
-	2 : C
-}
-,  }
-
-")).
-Eval vm_compute in ("<<<M30>>>" ++ check (runes_of_ascii "MetaData
-T {crc /// triple
-u8x `say ""hi""` , } // `tick` ""quote"" 'q'")).
-Eval vm_compute in ("<<<M776>>>" ++ check (runes_of_ascii "packet A {
+Eval vm_compute in ("<<<M3935>>>" ++ check (runes_of_ascii "packet A {
+    B b `a
+    b`,
+    B `a
+    b`,
+    repeat B bs `a
+    b`,
+}")).
+Eval vm_compute in ("<<<M2900>>>" ++ check (runes_of_ascii "packet A {
   match k as n {
-    [""a"", ""bb""] : B
+    [1, ""bb"", 007, ""d""] : B
     2 : C
   },
 }")).
-Eval vm_compute in ("<<<M770>>>" ++ check (runes_of_ascii "packet A {
-  match k as n {
-    [""a""] : B,
-    2 : C
-  },
+Eval vm_compute in ("<<<M1881>>>" ++ check (runes_of_ascii "packet o {
+    roots `it's`
+// trailing space 
+//x
+, char[ 42
+    ]  A")).
+Eval vm_compute in ("<<<M3829>>>" ++ check (runes_of_ascii "packet u128 {
+    @calculatedFrom(""\n"")
+    a1 `// not a comment`,
 }")).
-Eval vm_compute in ("<<<M1292>>>" ++ check (runes_of_ascii "packet x { @rightPad ( ) repeat roots Logon // c
-`doc` , }")).
-Eval vm_compute in ("<<<M1658>>>" ++ check (runes_of_ascii "packet
+Eval vm_compute in ("<<<M3369>>>" ++ check (runes_of_ascii "
 
-A
+  root 
+packet
 
-{ u8
-    x
+    P	{
 
-    , // c
-u8
-
-    y
-,} ")).
-Eval vm_compute in ("<<<M346>>>" ++ check (runes_of_ascii "MetaData leftPad // `tick` ""quote"" 'q'
+    hdr
 {
-    }")).
-Eval vm_compute in ("<<<M139>>>" ++ check (runes_of_ascii "MetaData
-packetx {  zchar[7
-]u128 , }
-")).
-Eval vm_compute in ("<<<M738>>>" ++ check (runes_of_ascii "0 char } uint16 MetaData @tag( As false")).
-Eval vm_compute in ("<<<M923>>>" ++ check (runes_of_ascii "root packet A {
-    u8 x `a
-b`,
-}")).
-Eval vm_compute in ("<<<M973>>>" ++ check (runes_of_ascii "packet A {
- u8 x `d `, // c 
-}")).
-Eval vm_compute in ("<<<M1988>>>" ++ check (runes_of_ascii "// c
-  root	packet	pack { 
-}")).
-Eval vm_compute in ("<<<M757>>>" ++ check (runes_of_ascii "\Rm'!k4-y+wos=3BJ?w?XzfT")).
-Eval vm_compute in ("<<<M1384>>>" ++ check (runes_of_ascii "MetaData
-// c
-o { }")).
-Eval vm_compute in ("<<<M1026>>>" ++ check (runes_of_ascii "packet A {
+    u8 a,
+
+},	u8	x,
+
 }
-// c" ++ [11]%N)).
-Eval vm_compute in ("<<<M1044>>>" ++ check (runes_of_ascii "packet A {
-}// c" ++ [65279]%N)).
-Eval vm_compute in ("<<<M744>>>" ++ check (runes_of_ascii "	" ++ [65533; 65533; 65533; 65533; 6; 65533; 65533]%N)).
-Eval vm_compute in ("<<<M1050>>>" ++ check (runes_of_ascii "// c" ++ [6158]%N)).
+
+")).
+Eval vm_compute in ("<<<M1211>>>" ++ check (runes_of_ascii "root packet
+    Foo {
+@rightPad
+// c
+// " ++ [27880; 37322]%N ++ runes_of_ascii "
+( )
+u8 x_y_z `` ,}
+")).
+Eval vm_compute in ("<<<M2099>>>" ++ check (runes_of_ascii "MetaData BodyLength
+{ int8 Foo
+, string
+    MetaDataX , float")).
+Eval vm_compute in ("<<<M4255>>>" ++ check (runes_of_ascii "MetaData M {
+    u8 x `a
+        b`,
+    T t `a
+        b`,
+}")).
+Eval vm_compute in ("<<<M4315>>>" ++ check (runes_of_ascii "MetaData M {
+    u8 x `
+        x`,
+    T t `
+        x`,
+}")).
+Eval vm_compute in ("<<<M1466>>>" ++ check (runes_of_ascii "packet
+T
+{ match repeatCount as	calculatedFrom
+{ [65535")).
+Eval vm_compute in ("<<<M1497>>>" ++ check (runes_of_ascii "packet
+T
+{ match repeatCount as	calculatedFrom
+{ [65")).
+Eval vm_compute in ("<<<M3195>>>" ++ check (runes_of_ascii "packet A { u8 x, } // a
+// b
+packet B {} // c
+// d")).
+Eval vm_compute in ("<<<M960>>>" ++ check (runes_of_ascii "MetaData Pad { msg_type
+x_y_z
+`crlf
+line` , }")).
+Eval vm_compute in ("<<<M2657>>>" ++ check (runes_of_ascii "MetaData M { u8 x `d` , y z `e`, char[3] w, }")).
+Eval vm_compute in ("<<<M2849>>>" ++ check (runes_of_ascii "] uint16 options repeat uint8 = u32 int64 }")).
+Eval vm_compute in ("<<<M3182>>>" ++ check (runes_of_ascii "packet A {
+    u8 x,    // c    u8 y,
+}")).
+Eval vm_compute in ("<<<M2084>>>" ++ check (runes_of_ascii "MetaData BodyLength
+{ int8 Foo
+, string")).
+Eval vm_compute in ("<<<M2368>>>" ++ check (runes_of_ascii "MetaData
+Foo {@rightPad //
+pack ,	} 	 ")).
+Eval vm_compute in ("<<<M3212>>>" ++ check (runes_of_ascii "packet A { u8 x,// a
+
+
+// b
+
+ u8 y, }")).
+Eval vm_compute in ("<<<M4015>>>" ++ check (runes_of_ascii "packet packetx {
+}
+
+packet zchar {
+}")).
+Eval vm_compute in ("<<<M2589>>>" ++ check (runes_of_ascii "packet A { char[3] @lengthOf(y), }")).
+Eval vm_compute in ("<<<M446>>>" ++ check (runes_of_ascii "
+root
+    packet metadata
+{ }
+
+")).
+Eval vm_compute in ("<<<M2370>>>" ++ check (runes_of_ascii "MetaData
+Foo {Header //
+ ,	} 	 ")).
+Eval vm_compute in ("<<<M3114>>>" ++ check (runes_of_ascii "packet A {
+ u8 x `d" ++ [5760]%N ++ runes_of_ascii "`, // c" ++ [5760]%N ++ runes_of_ascii "
+}")).
+Eval vm_compute in ("<<<M4436>>>" ++ check (runes_of_ascii "
+
+  root packet 
+packetx {
+	}")).
+Eval vm_compute in ("<<<M1361>>>" ++ check (runes_of_ascii "packet
+    //x
+    i8i8{	}
+")).
+Eval vm_compute in ("<<<M2635>>>" ++ check (runes_of_ascii "packet A { u8 x, @tag(1) }")).
+Eval vm_compute in ("<<<M2588>>>" ++ check (runes_of_ascii "packet A { char[ 3 ] , }")).
+Eval vm_compute in ("<<<M307>>>" ++ check (runes_of_ascii " // `tick` ""quote"" 'q'")).
+Eval vm_compute in ("<<<M2804>>>" ++ check (runes_of_ascii "y" ++ [7]%N ++ runes_of_ascii "MS7," ++ [65533]%N ++ runes_of_ascii "]" ++ [65533; 22]%N ++ runes_of_ascii "}" ++ [31]%N ++ runes_of_ascii "ePZ" ++ [65533]%N ++ runes_of_ascii "R" ++ [65533; 65533]%N ++ runes_of_ascii "R" ++ [65533]%N)).
+Eval vm_compute in ("<<<M1530>>>" ++ check (runes_of_ascii "// 50% %s
+packet	a1")).
+Eval vm_compute in ("<<<M2707>>>" ++ check (runes_of_ascii "U,!W#@X%>&\/),5|OU")).
+Eval vm_compute in ("<<<M3162>>>" ++ check (runes_of_ascii "packet A {
+}
+// c" ++ [8203]%N)).
+Eval vm_compute in ("<<<M3105>>>" ++ check (runes_of_ascii "packet A {
+}// c" ++ [133]%N)).
+Eval vm_compute in ("<<<M2723>>>" ++ check (runes_of_ascii ",K>m\v$n2hKn]8.:")).
+Eval vm_compute in ("<<<M2764>>>" ++ check (runes_of_ascii "255 char match")).
+Eval vm_compute in ("<<<M351>>>" ++ check (runes_of_ascii "options{ }
+")).
+Eval vm_compute in ("<<<M2800>>>" ++ check ([21; 65533]%N ++ runes_of_ascii "$" ++ [5; 20]%N ++ runes_of_ascii "y" ++ [65533]%N ++ runes_of_ascii "2" ++ [65533]%N)).
+Eval vm_compute in ("<<<M2703>>>" ++ check (runes_of_ascii "8pk}62I")).
+Eval vm_compute in ("<<<M858>>>" ++ check (runes_of_ascii "//x
+
+")).
+Eval vm_compute in ("<<<M3121>>>" ++ check (runes_of_ascii "// c" ++ [8202]%N)).
+Eval vm_compute in ("<<<M2554>>>" ++ check (runes_of_ascii "a
+b")).
+Eval vm_compute in ("<<<M2556>>>" ++ check (runes_of_ascii "a" ++ [11]%N ++ runes_of_ascii "b")).
+Eval vm_compute in ("<<<M2807>>>" ++ check (runes_of_ascii "42")).
